@@ -490,7 +490,7 @@ theorem newStruct_cases {hash : Nat → Nat} {cur dur ca g : Nat} {fields : Fiel
           simp only [ne_eq, not_true_eq_false, if_false, Except.ok.injEq] at h
           subst h
           exact ⟨rfl, rfl, Or.inr (Or.inr (Or.inl ⟨id1, v, last, hfind, hv, hl, h1, hlt, hs,
-            Or.inl ⟨rfl, rfl, rfl⟩⟩))⟩
+            Or.inl ⟨hch, rfl, rfl⟩⟩))⟩
         · simp only [hch, if_true] at hid
           have hne : id1 ≠ id := by
             intro heq
@@ -500,7 +500,7 @@ theorem newStruct_cases {hash : Nat → Nat} {cur dur ca g : Nat} {fields : Fiel
           simp only [ne_eq, hne, not_false_eq_true, if_true, Except.ok.injEq] at h
           subst h
           exact ⟨rfl, rfl, Or.inr (Or.inr (Or.inl ⟨id, v, last, hfind, hv, hl, h1, hlt, hs,
-            Or.inr ⟨rfl, hid, by rw [hid]⟩⟩))⟩
+            Or.inr ⟨hch, hid, by rw [hid]; rfl⟩⟩))⟩
     · rename_i s1 hupd
       obtain ⟨v, last, hv, hl, hcase⟩ := update_cases hupd
       rcases hcase with ⟨_, h2⟩ | ⟨h1, hge, h2⟩ | ⟨_, _, h2⟩
@@ -522,5 +522,1834 @@ theorem newStruct_cases {hash : Nat → Nat} {cur dur ca g : Nat} {fields : Fiel
       simp only [Except.ok.injEq] at h
       subst h
       exact ⟨rfl, rfl, Or.inr (Or.inr (Or.inr ⟨hfind, s2, id2, halloc, rfl, rfl, rfl⟩))⟩
+
+/-! ### runCreations and disambiguators -/
+
+theorem runCreations_cons {hash : Nat → Nat} {cur : Nat} {c : Creation} {rest : List Creation}
+    {f : Frame} {s : State} {r : Frame × State × List (Identity × Id)}
+    (h : runCreations hash cur (c :: rest) f s = .ok r) :
+    ∃ out f' s' rs, newStruct hash cur c.dur c.changedAt c.ingr c.fields f s = .ok out ∧
+      runCreations hash cur rest out.frame out.state = .ok (f', s', rs) ∧
+      r = (f', s', (out.identity, out.id) :: rs) := by
+  unfold runCreations at h
+  split at h
+  · cases h
+  · rename_i out hout
+    split at h
+    · cases h
+    · rename_i f' s' rs hrest
+      simp only [Except.ok.injEq] at h
+      exact ⟨out, f', s', rs, hout, hrest, h.symm⟩
+
+theorem newStruct_disamb {hash : Nat → Nat} {cur dur ca g : Nat} {fields : Fields} {f : Frame}
+    {s : State} {out : NewStruct} (h : newStruct hash cur dur ca g fields f s = .ok out) :
+    out.identity = ⟨g, hash fields.idv, DisambiguatorMap.get f.disamb (g, hash fields.idv)⟩ ∧
+    ∀ key', DisambiguatorMap.get out.frame.disamb key'
+      = if (g, hash fields.idv) = key' then DisambiguatorMap.get f.disamb (g, hash fields.idv) + 1
+        else DisambiguatorMap.get f.disamb key' := by
+  obtain ⟨h1, h2, _⟩ := newStruct_cases h
+  refine ⟨by rw [h1]; rfl, ?_⟩
+  intro key'
+  rw [h2]
+  exact dget_set _ _ _ _
+
+theorem runCreations_length {hash : Nat → Nat} {cur : Nat} {cs : List Creation} {f f' : Frame}
+    {s s' : State} {rs : List (Identity × Id)}
+    (h : runCreations hash cur cs f s = .ok (f', s', rs)) : rs.length = cs.length := by
+  induction cs generalizing f s f' s' rs with
+  | nil =>
+    simp only [runCreations, Except.ok.injEq, Prod.mk.injEq] at h
+    obtain ⟨_, _, h3⟩ := h
+    subst h3
+    rfl
+  | cons c rest ih =>
+    obtain ⟨out, f1, s1, rs1, _, hrest, hr⟩ := runCreations_cons h
+    simp only [Prod.mk.injEq] at hr
+    rw [hr.2.2, List.length_cons, List.length_cons, ih hrest]
+
+/-- the identity the `j`-th creation is registered under: its disambiguator is the value of the
+    frame's disambiguator map at the start plus the number of EARLIER creations with the same
+    (ingredient, hash). -/
+theorem runCreations_disamb {hash : Nat → Nat} {cur : Nat} {cs : List Creation} {f f' : Frame}
+    {s s' : State} {rs : List (Identity × Id)}
+    (h : runCreations hash cur cs f s = .ok (f', s', rs)) :
+    ∀ j c, cs[j]? = some c → ∃ id, rs[j]? = some
+      ((⟨c.ingr, hash c.fields.idv,
+        DisambiguatorMap.get f.disamb (keyOf hash c) + countKey hash (keyOf hash c) (cs.take j)⟩
+          : Identity), id) := by
+  induction cs generalizing f s f' s' rs with
+  | nil => intro j c hc; simp at hc
+  | cons c0 rest ih =>
+    obtain ⟨out, f1, s1, rs1, hns, hrest, hr⟩ := runCreations_cons h
+    simp only [Prod.mk.injEq] at hr
+    obtain ⟨hid, hget⟩ := newStruct_disamb hns
+    intro j c hc
+    cases j with
+    | zero =>
+      simp only [List.getElem?_cons_zero, Option.some.injEq] at hc
+      subst hc
+      refine ⟨out.id, ?_⟩
+      rw [hr.2.2, hid]
+      simp [keyOf, countKey]
+    | succ j =>
+      simp only [List.getElem?_cons_succ] at hc
+      obtain ⟨id, hid'⟩ := ih hrest j c hc
+      refine ⟨id, ?_⟩
+      rw [hr.2.2, List.getElem?_cons_succ, hid', hget]
+      simp only [List.take_succ_cons, countKey, keyOf]
+      by_cases hk : (c0.ingr, hash c0.fields.idv) = (c.ingr, hash c.fields.idv)
+      · simp only [hk, if_true]
+        congr 3
+        omega
+      · simp only [hk, if_false]
+        congr 3
+        omega
+
+/-! ### state predicates -/
+
+/-- slot `k` exists and is not deleted / write-locked -/
+def Live (s : State) (k : Nat) : Prop := ∃ v, s.slots[k]? = some v ∧ v.updatedAt ≠ none
+
+/-- `id` is a valid handle: its slot is live and carries the handle's generation -/
+def Owns (s : State) (id : Id) : Prop :=
+  ∃ v, s.slots[id.idx]? = some v ∧ v.updatedAt ≠ none ∧ v.gen = id.gen
+
+/-- `id` denotes a deleted slot of generation `id.gen` with an empty memo table -/
+def DeadAt (s : State) (id : Id) : Prop :=
+  ∃ v, s.slots[id.idx]? = some v ∧ v.updatedAt = none ∧ v.gen = id.gen ∧ v.memos = []
+
+/-- every free-list entry denotes a deleted slot of the entry's generation with no memos -/
+def FreeOK (s : State) : Prop := ∀ p, p ∈ s.free → DeadAt s p.2
+
+instance (s : State) (k : Nat) : Decidable (Live s k) :=
+  match h : s.slots[k]? with
+  | some v =>
+    if h2 : v.updatedAt ≠ none then isTrue ⟨v, h, h2⟩
+    else isFalse (by rintro ⟨v', h1, h3⟩; rw [h] at h1; cases h1; exact h2 h3)
+  | none => isFalse (by rintro ⟨v', h1, _⟩; rw [h] at h1; cases h1)
+
+instance (s : State) (id : Id) : Decidable (Owns s id) :=
+  match h : s.slots[id.idx]? with
+  | some v =>
+    if h2 : v.updatedAt ≠ none ∧ v.gen = id.gen then isTrue ⟨v, h, h2.1, h2.2⟩
+    else isFalse (by rintro ⟨v', h1, h3⟩; rw [h] at h1; cases h1; exact h2 h3)
+  | none => isFalse (by rintro ⟨v', h1, _⟩; rw [h] at h1; cases h1)
+
+instance (s : State) (id : Id) : Decidable (DeadAt s id) :=
+  match h : s.slots[id.idx]? with
+  | some v =>
+    if h2 : v.updatedAt = none ∧ v.gen = id.gen ∧ v.memos = [] then isTrue ⟨v, h, h2⟩
+    else isFalse (by rintro ⟨v', h1, h3⟩; rw [h] at h1; cases h1; exact h2 h3)
+  | none => isFalse (by rintro ⟨v', h1, _⟩; rw [h] at h1; cases h1)
+
+instance (s : State) : Decidable (FreeOK s) := by unfold FreeOK; infer_instance
+
+def FreeNodup (s : State) : Prop := (freeIdxs s.free).Nodup
+
+instance (s : State) : Decidable (FreeNodup s) := by unfold FreeNodup; infer_instance
+
+/-- every memo stored in a slot was inserted under the slot's current generation -/
+def MemoGen (s : State) : Prop :=
+  ∀ (k : Nat) (v : Slot), s.slots[k]? = some v → ∀ m : Memo, m ∈ v.memos → m.gen = v.gen
+
+theorem Owns.live {s : State} {id : Id} (h : Owns s id) : Live s id.idx := by
+  obtain ⟨v, h1, h2, _⟩ := h
+  exact ⟨v, h1, h2⟩
+
+theorem free_not_live {s : State} (hF : FreeOK s) {p : Nat × Id} (hp : p ∈ s.free) :
+    ¬ Live s p.2.idx := by
+  obtain ⟨v, h1, h2, _⟩ := hF p hp
+  rintro ⟨v', h1', h2'⟩
+  rw [h1] at h1'
+  cases h1'
+  exact h2' h2
+
+theorem getElem?_set_self' {α : Type} {l : List α} {k : Nat} {v v0 : α} (h : l[k]? = some v0) :
+    (l.set k v)[k]? = some v := by
+  have hk : k < l.length := by
+    rcases Nat.lt_or_ge k l.length with h1 | h1
+    · exact h1
+    · rw [List.getElem?_eq_none h1] at h; cases h
+  exact List.getElem?_set_self hk
+
+/-- the slots of `s'` are those of `s` except that slot `k` now holds `v'` -/
+def Touch (s s' : State) (k : Nat) (v' : Slot) : Prop :=
+  (∀ j, j ≠ k → s'.slots[j]? = s.slots[j]?) ∧ s'.slots[k]? = some v'
+
+theorem touch_set {s : State} {k : Nat} {v0 v' : Slot} {fr : List (Nat × Id)}
+    (h : s.slots[k]? = some v0) : Touch s ⟨s.slots.set k v', fr⟩ k v' := by
+  refine ⟨?_, getElem?_set_self' h⟩
+  intro j hj
+  exact List.getElem?_set_ne (Ne.symm hj)
+
+theorem touch_append {s : State} {v' : Slot} {fr : List (Nat × Id)} :
+    Touch s ⟨s.slots ++ [v'], fr⟩ s.slots.length v' := by
+  refine ⟨?_, ?_⟩
+  · intro j hj
+    show (s.slots ++ [v'])[j]? = s.slots[j]?
+    rcases Nat.lt_or_ge j s.slots.length with h1 | h1
+    · exact List.getElem?_append_left h1
+    · have h2 : s.slots.length < j := Nat.lt_of_le_of_ne h1 (Ne.symm hj)
+      rw [List.getElem?_eq_none h1, List.getElem?_eq_none]
+      simp only [List.length_append, List.length_cons, List.length_nil]
+      omega
+  · show (s.slots ++ [v'])[s.slots.length]? = some v'
+    rw [List.getElem?_append_right (Nat.le_refl _)]
+    simp
+
+theorem Touch.live_other {s s' : State} {k : Nat} {v' : Slot} (h : Touch s s' k v') {j : Nat}
+    (hj : j ≠ k) : Live s' j ↔ Live s j := by
+  unfold Live
+  rw [h.1 j hj]
+
+theorem Touch.owns_other {s s' : State} {k : Nat} {v' : Slot} (h : Touch s s' k v') {id : Id}
+    (hj : id.idx ≠ k) : Owns s' id ↔ Owns s id := by
+  unfold Owns
+  rw [h.1 _ hj]
+
+/-- `MemoGen` is preserved when the touched slot's memos all carry its generation -/
+theorem Touch.memoGen {s s' : State} {k : Nat} {v' : Slot} (h : Touch s s' k v')
+    (hM : MemoGen s) (hv : ∀ m, m ∈ v'.memos → m.gen = v'.gen) : MemoGen s' := by
+  intro j v hjv m hm
+  by_cases hj : j = k
+  · subst hj
+    rw [h.2] at hjv
+    cases hjv
+    exact hv m hm
+  · rw [h.1 j hj] at hjv
+    exact hM j v hjv m hm
+
+/-- `FreeOK` is preserved when the touched slot is not on the free list -/
+theorem Touch.freeOK {s s' : State} {k : Nat} {v' : Slot} (h : Touch s s' k v')
+    (hF : FreeOK s) (hsub : ∀ p, p ∈ s'.free → p ∈ s.free ∧ p.2.idx ≠ k) : FreeOK s' := by
+  intro p hp
+  obtain ⟨hp1, hp2⟩ := hsub p hp
+  unfold DeadAt
+  rw [h.1 _ hp2]
+  exact hF p hp1
+
+/-! ### allocate -/
+
+theorem allocate_spec {s s2 : State} {cur dur ca g : Nat} {fields : Fields} {id2 : Id}
+    (h : allocate s cur dur ca g fields = .ok (s2, id2)) (hF : FreeOK s) (hN : FreeNodup s) :
+    ¬ Live s id2.idx ∧ Touch s s2 id2.idx (newValue id2.gen cur dur ca fields) ∧
+    FreeOK s2 ∧ FreeNodup s2 ∧ (∀ p, p ∈ s2.free → p ∈ s.free) := by
+  obtain ⟨hfree, hcase⟩ := allocate_cases h
+  have hsub : ∀ p, p ∈ s2.free → p ∈ s.free := by
+    intro p hp
+    rw [hfree] at hp
+    exact (allocLoop_sublist g s.free).mem hp
+  have hN2 : FreeNodup s2 := by
+    unfold FreeNodup
+    rw [hfree]
+    exact List.Nodup.sublist ((allocLoop_sublist g s.free).map _) hN
+  rcases hcase with ⟨id0, v0, hmem, _, hid, hloop, hv0, hslots⟩ | ⟨_, hid, hslots⟩
+  · have hnl : ¬ Live s id2.idx := by
+      have := free_not_live hF hmem
+      rw [hid]; exact this
+    have ht : Touch s s2 id2.idx (newValue id2.gen cur dur ca fields) := by
+      have := touch_set (v' := newValue id2.gen cur dur ca fields) (fr := s2.free) hv0
+      rw [← hslots] at this
+      exact this
+    refine ⟨hnl, ht, ?_, hN2, hsub⟩
+    apply ht.freeOK hF
+    intro p hp
+    refine ⟨hsub p hp, ?_⟩
+    intro heq
+    have hnot := allocLoop_idx_notin hN hloop
+    apply hnot
+    rw [hfree] at hp
+    exact mem_freeIdxs.mpr ⟨p, hp, heq⟩
+  · have hnl : ¬ Live s id2.idx := by
+      rintro ⟨v, hv, _⟩
+      rw [hid] at hv
+      simp at hv
+    have ht : Touch s s2 id2.idx (newValue id2.gen cur dur ca fields) := by
+      have := touch_append (s := s) (v' := newValue 0 cur dur ca fields) (fr := s2.free)
+      rw [← hslots] at this
+      rw [hid]
+      exact this
+    refine ⟨hnl, ht, ?_, hN2, hsub⟩
+    apply ht.freeOK hF
+    intro p hp
+    refine ⟨hsub p hp, ?_⟩
+    intro heq
+    obtain ⟨v, hv, _⟩ := hF p (hsub p hp)
+    rw [heq, hid] at hv
+    simp at hv
+
+/-! ### sharper identity-map lemmas (need: slot indices of the entries pairwise distinct) -/
+
+theorem mem_idx_eq_find {m : List Entry} {key : Identity} {id : Id} {e0 : Entry}
+    (hn : (idxs m).Nodup) (hfind : IdentityMap.find m key = some id) (he : e0 ∈ m)
+    (hidx : e0.id.idx = id.idx) : e0.id = id ∧ e0.identity = key := by
+  induction m with
+  | nil => simp at he
+  | cons e rest ih =>
+    have hn' : e.id.idx ∉ idxs rest ∧ (idxs rest).Nodup := by
+      simpa [idxs, List.nodup_cons] using hn
+    by_cases hk : e.identity = key
+    · simp [IdentityMap.find, hk] at hfind
+      rcases List.mem_cons.mp he with h1 | h1
+      · rw [h1]; exact ⟨hfind, hk⟩
+      · exfalso
+        apply hn'.1
+        rw [hfind, ← hidx]
+        exact mem_idxs.mpr ⟨e0, h1, rfl⟩
+    · simp [IdentityMap.find, hk] at hfind
+      rcases List.mem_cons.mp he with h1 | h1
+      · exfalso
+        apply hn'.1
+        rw [← h1, hidx]
+        exact find_idx_mem hfind
+      · exact ih hn'.2 hfind h1
+
+theorem mem_insertEntry_of_find {m : List Entry} {key : Identity} {id old : Id} {a : Bool}
+    {e : Entry} (hn : (idxs m).Nodup) (hfind : IdentityMap.find m key = some old)
+    (h : e ∈ IdentityMap.insertEntry m key id a) :
+    e = ⟨key, id, a⟩ ∨ (e ∈ m ∧ e.id.idx ≠ old.idx) := by
+  induction m with
+  | nil => simp [IdentityMap.find] at hfind
+  | cons e1 rest ih =>
+    have hn' : e1.id.idx ∉ idxs rest ∧ (idxs rest).Nodup := by
+      simpa [idxs, List.nodup_cons] using hn
+    by_cases hk : e1.identity = key
+    · simp [IdentityMap.find, hk] at hfind
+      simp only [IdentityMap.insertEntry, hk, if_true, List.mem_cons] at h
+      rcases h with h | h
+      · exact Or.inl h
+      · refine Or.inr ⟨List.mem_cons_of_mem _ h, ?_⟩
+        intro heq
+        apply hn'.1
+        rw [hfind, ← heq]
+        exact mem_idxs.mpr ⟨e, h, rfl⟩
+    · simp [IdentityMap.find, hk] at hfind
+      simp only [IdentityMap.insertEntry, hk, if_false, List.mem_cons] at h
+      rcases h with h | h
+      · refine Or.inr ⟨by simp [h], ?_⟩
+        intro heq
+        apply hn'.1
+        rw [← h, heq]
+        exact find_idx_mem hfind
+      · rcases ih hn'.2 hfind h with h1 | ⟨h1, h2⟩
+        · exact Or.inl h1
+        · exact Or.inr ⟨List.mem_cons_of_mem _ h1, h2⟩
+
+theorem mem_markActive_of_ne {m : List Entry} {key : Identity} {e : Entry} (he : e ∈ m)
+    (hne : e.identity ≠ key) : e ∈ IdentityMap.markActive m key := by
+  induction m with
+  | nil => simp at he
+  | cons e1 rest ih =>
+    by_cases hk : e1.identity = key
+    · simp only [IdentityMap.markActive, hk, if_true, List.mem_cons]
+      rcases List.mem_cons.mp he with h1 | h1
+      · exact absurd (h1 ▸ hk) hne
+      · exact Or.inr h1
+    · simp only [IdentityMap.markActive, hk, if_false, List.mem_cons]
+      rcases List.mem_cons.mp he with h1 | h1
+      · exact Or.inl h1
+      · exact Or.inr (ih h1)
+
+theorem mem_insertEntry_of_ne {m : List Entry} {key : Identity} {id : Id} {a : Bool} {e : Entry}
+    (he : e ∈ m) (hne : e.identity ≠ key) : e ∈ IdentityMap.insertEntry m key id a := by
+  induction m with
+  | nil => simp at he
+  | cons e1 rest ih =>
+    by_cases hk : e1.identity = key
+    · simp only [IdentityMap.insertEntry, hk, if_true, List.mem_cons]
+      rcases List.mem_cons.mp he with h1 | h1
+      · exact absurd (h1 ▸ hk) hne
+      · exact Or.inr h1
+    · simp only [IdentityMap.insertEntry, hk, if_false, List.mem_cons]
+      rcases List.mem_cons.mp he with h1 | h1
+      · exact Or.inl h1
+      · exact Or.inr (ih h1)
+
+/-! ### newStruct preserves the frame-level invariants -/
+
+theorem updatedValue_gen_eq {v : Slot} {cur dur ca : Nat} {id : Id} {fields : Fields} :
+    (updatedValue v cur dur ca id fields).gen
+      = if (updateFields ca v.revs v.fields fields).identityChanged then id.gen + 1 else v.gen := rfl
+
+theorem updatedValue_memos_eq {v : Slot} {cur dur ca : Nat} {id : Id} {fields : Fields} :
+    (updatedValue v cur dur ca id fields).memos
+      = if (updateFields ca v.revs v.fields fields).identityChanged then [] else v.memos := rfl
+
+theorem updatedValue_updatedAt {v : Slot} {cur dur ca : Nat} {id : Id} {fields : Fields} :
+    (updatedValue v cur dur ca id fields).updatedAt = some cur := rfl
+
+theorem newStruct_memoGen {hash : Nat → Nat} {cur dur ca g : Nat} {fields : Fields} {f : Frame}
+    {s : State} {out : NewStruct} (h : newStruct hash cur dur ca g fields f s = .ok out)
+    (hM : MemoGen s) : MemoGen out.state := by
+  have halloc : ∀ s2 id2, allocate s cur dur ca g fields = .ok (s2, id2) → MemoGen s2 := by
+    intro s2 id2 ha
+    obtain ⟨_, hcase⟩ := allocate_cases ha
+    rcases hcase with ⟨id0, v0, _, _, _, _, hv0, hslots⟩ | ⟨_, hid, hslots⟩
+    · have ht := touch_set (v' := newValue id2.gen cur dur ca fields) (fr := s2.free) hv0
+      rw [← hslots] at ht
+      exact ht.memoGen hM (by intro m hm; simp [newValue] at hm)
+    · have ht := touch_append (s := s) (v' := newValue 0 cur dur ca fields) (fr := s2.free)
+      rw [← hslots] at ht
+      exact ht.memoGen hM (by intro m hm; simp [newValue] at hm)
+  obtain ⟨_, _, hcase⟩ := newStruct_cases h
+  rcases hcase with ⟨id, v, _, _, _, _, hs, _⟩ | ⟨id, v, last, s2, id2, _, _, _, _, _, ha, _, hs, _⟩ |
+    ⟨id, v, last, _, hv, _, _, _, hs, _⟩ | ⟨_, s2, id2, ha, _, hs, _⟩
+  · rw [hs]; exact hM
+  · rw [hs]; exact halloc s2 id2 ha
+  · rw [hs]
+    apply (touch_set hv).memoGen hM
+    intro m hm
+    rw [updatedValue_memos_eq] at hm
+    rw [updatedValue_gen_eq]
+    cases hch : (updateFields ca v.revs v.fields fields).identityChanged
+    · rw [hch] at hm
+      simp only [Bool.false_eq_true, if_false] at hm ⊢
+      exact hM _ v hv m hm
+    · rw [hch] at hm
+      simp at hm
+  · rw [hs]; exact halloc s2 id2 ha
+
+/-- what `newStruct` guarantees for the frame it runs in and for everybody else -/
+structure NSInv (f : Frame) (s : State) (out : NewStruct) : Prop where
+  freeOK : FreeOK out.state
+  freeNodup : FreeNodup out.state
+  owns : ∀ e, e ∈ out.frame.idmap → Owns out.state e.id
+  nodup : (idxs out.frame.idmap).Nodup
+  sub : ∀ n, n ∈ idxs out.frame.idmap → n ∈ idxs f.idmap ∨ ¬ Live s n
+  others : ∀ k, k ∉ idxs f.idmap → Live s k → out.state.slots[k]? = s.slots[k]?
+  freeSub : ∀ p, p ∈ out.state.free → p ∈ s.free
+  ownsOut : Owns out.state out.id
+
+theorem newStruct_inv {hash : Nat → Nat} {cur dur ca g : Nat} {fields : Fields} {f : Frame}
+    {s : State} {out : NewStruct} (h : newStruct hash cur dur ca g fields f s = .ok out)
+    (hF : FreeOK s) (hN : FreeNodup s) (hown : ∀ e, e ∈ f.idmap → Owns s e.id)
+    (hnd : (idxs f.idmap).Nodup) : NSInv f s out := by
+  have hm1 : idxs (nsM1 hash f g fields) = idxs f.idmap := idxs_markActive _ _
+  have hm1own : ∀ e, e ∈ nsM1 hash f g fields → ∃ e0, e0 ∈ f.idmap ∧ e.id = e0.id := by
+    intro e he
+    obtain ⟨e0, h0, _, h2, _⟩ := mem_markActive he
+    exact ⟨e0, h0, h2⟩
+  -- the two allocating cases
+  have halloc : ∀ s2 id2, allocate s cur dur ca g fields = .ok (s2, id2) →
+      out.frame.idmap
+        = IdentityMap.insertEntry (nsM1 hash f g fields) (newIdentity hash f g fields) id2 true →
+      out.state = s2 → out.id = id2 → NSInv f s out := by
+    intro s2 id2 ha hmap hs hid
+    obtain ⟨hnl, ht, hF2, hN2, hsub⟩ := allocate_spec ha hF hN
+    have hfresh : id2.idx ∉ idxs f.idmap := by
+      intro hmem
+      obtain ⟨e, he, heq⟩ := mem_idxs.mp hmem
+      exact hnl (heq ▸ (hown e he).live)
+    have hO2 : Owns s2 id2 := ⟨_, ht.2, by simp [newValue], by simp [newValue]⟩
+    refine ⟨hs ▸ hF2, hs ▸ hN2, ?_, ?_, ?_, ?_, hs ▸ hsub, by rw [hs, hid]; exact hO2⟩
+    · intro e he
+      rw [hmap] at he
+      rw [hs]
+      rcases mem_insertEntry he with h1 | h1
+      · rw [h1]; exact hO2
+      · obtain ⟨e0, h0, heq⟩ := hm1own e h1
+        rw [heq]
+        have ho := hown e0 h0
+        have hne : e0.id.idx ≠ id2.idx := fun hc => hnl (hc ▸ ho.live)
+        exact (ht.owns_other hne).mpr ho
+    · rw [hmap]
+      exact insertEntry_idxs_fresh (hm1 ▸ hnd) (hm1 ▸ hfresh)
+    · intro n hn
+      rw [hmap] at hn
+      rcases mem_idxs_insertEntry hn with h1 | h1
+      · right; rw [h1]; exact hnl
+      · left; rw [← hm1]; exact h1
+    · intro k _ hlive
+      rw [hs]
+      exact ht.1 k (fun hc => hnl (hc ▸ hlive))
+  obtain ⟨_, _, hcase⟩ := newStruct_cases h
+  rcases hcase with ⟨id, v, hfind, hv, hu, hmap, hs, hid⟩ |
+    ⟨id, v, last, s2, id2, _, _, _, _, _, ha, hmap, hs, hid⟩ |
+    ⟨id, v, last, hfind, hv, hl, _, _, hs, hch⟩ | ⟨_, s2, id2, ha, hmap, hs, hid⟩
+  · -- A
+    have hfm := find_some_mem hfind
+    obtain ⟨e1, he1, _, hid1⟩ := hfm
+    refine ⟨hs ▸ hF, hs ▸ hN, ?_, by rw [hmap, hm1]; exact hnd, ?_, ?_, by rw [hs]; exact fun p hp => hp, ?_⟩
+    · intro e he
+      rw [hmap] at he
+      obtain ⟨e0, h0, heq⟩ := hm1own e he
+      rw [hs, heq]; exact hown e0 h0
+    · intro n hn
+      rw [hmap, hm1] at hn
+      exact Or.inl hn
+    · intro k _ _; rw [hs]
+    · rw [hs, hid, ← hid1]; exact hown e1 he1
+  · exact halloc s2 id2 ha hmap hs hid
+  · -- C
+    have hfm := find_some_mem hfind
+    obtain ⟨e1, he1, _, hid1⟩ := hfm
+    have ho1 : Owns s id := hid1 ▸ hown e1 he1
+    have hlive : Live s id.idx := ho1.live
+    have ht : Touch s out.state id.idx (updatedValue v cur dur ca id fields) := by
+      rw [hs]; exact touch_set hv
+    have hfree : out.state.free = s.free := by rw [hs]
+    have hgen : v.gen = id.gen := by
+      obtain ⟨v', hv', _, hg⟩ := ho1
+      rw [hv] at hv'; cases hv'; exact hg
+    have hF' : FreeOK out.state := by
+      apply ht.freeOK hF
+      intro p hp
+      rw [hfree] at hp
+      exact ⟨hp, fun hc => free_not_live hF hp (hc ▸ hlive)⟩
+    have hidx : id.idx ∈ idxs f.idmap := find_idx_mem hfind
+    have hoth : ∀ k, k ∉ idxs f.idmap → Live s k → out.state.slots[k]? = s.slots[k]? := by
+      intro k hk _
+      exact ht.1 k (fun hc => hk (hc ▸ hidx))
+    have holdown : ∀ e0, e0 ∈ f.idmap → e0.id.idx ≠ id.idx → Owns out.state e0.id :=
+      fun e0 h0 hne => (ht.owns_other hne).mpr (hown e0 h0)
+    rcases hch with ⟨hc, hid, hmap⟩ | ⟨hc, hid, hmap⟩
+    · have hO : Owns out.state id :=
+        ⟨_, ht.2, by simp [updatedValue_updatedAt], by rw [updatedValue_gen_eq, hc]; simpa using hgen⟩
+      refine ⟨hF', by unfold FreeNodup; rw [hfree]; exact hN, ?_, by rw [hmap, hm1]; exact hnd, ?_,
+        hoth, by rw [hfree]; exact fun p hp => hp, hid ▸ hO⟩
+      · intro e he
+        rw [hmap] at he
+        obtain ⟨e0, h0, heq⟩ := hm1own e he
+        rw [heq]
+        by_cases hi : e0.id.idx = id.idx
+        · rw [(mem_idx_eq_find hnd hfind h0 hi).1]; exact hO
+        · exact holdown e0 h0 hi
+      · intro n hn
+        rw [hmap, hm1] at hn
+        exact Or.inl hn
+    · have hO : Owns out.state ⟨id.idx, id.gen + 1⟩ :=
+        ⟨_, ht.2, by simp [updatedValue_updatedAt], by rw [updatedValue_gen_eq, hc]; simp⟩
+      have hfind1 : IdentityMap.find (nsM1 hash f g fields) (newIdentity hash f g fields) = some id := by
+        unfold nsM1; rw [find_markActive]; exact hfind
+      have hsame : idxs out.frame.idmap = idxs f.idmap := by
+        rw [hmap, insertEntry_idxs_same (id := ⟨id.idx, id.gen + 1⟩) hfind1 rfl, hm1]
+      refine ⟨hF', by unfold FreeNodup; rw [hfree]; exact hN, ?_, by rw [hsame]; exact hnd, ?_,
+        hoth, by rw [hfree]; exact fun p hp => hp, hid ▸ hO⟩
+      · intro e he
+        rw [hmap] at he
+        rcases mem_insertEntry_of_find (hm1 ▸ hnd) hfind1 he with h1 | ⟨h1, h2⟩
+        · rw [h1]; exact hO
+        · obtain ⟨e0, h0, heq⟩ := hm1own e h1
+          rw [heq]
+          exact holdown e0 h0 (heq ▸ h2)
+      · intro n hn
+        rw [hsame] at hn
+        exact Or.inl hn
+  · exact halloc s2 id2 ha hmap hs hid
+
+/-! ### deleteEntity / deleteAll -/
+
+/-- the slot left behind by `delete_entity` -/
+def deadValue (v : Slot) : Slot := { v with updatedAt := none, memos := [] }
+
+theorem deleteEntity_spec {s s' : State} {cur g : Nat} {id : Id}
+    (h : deleteEntity s cur g id = .ok s') :
+    ∃ v r, s.slots[id.idx]? = some v ∧ v.updatedAt = some r ∧ r ≠ cur ∧
+      Touch s s' id.idx (deadValue v) ∧ s'.free = s.free ++ [(g, id)] := by
+  obtain ⟨v, r, hv, hr, hne, hs⟩ := deleteEntity_cases h
+  refine ⟨v, r, hv, hr, hne, ?_, by rw [hs]⟩
+  rw [hs]
+  exact touch_set hv
+
+/-- slot indices of a list of (identity, id) pairs -/
+def pairIdxs (l : List (Identity × Id)) : List Nat := l.map (fun x => x.2.idx)
+
+theorem mem_pairIdxs {l : List (Identity × Id)} {n : Nat} :
+    n ∈ pairIdxs l ↔ ∃ x, x ∈ l ∧ x.2.idx = n := by
+  simp [pairIdxs, List.mem_map]
+
+theorem deleteAll_cons {s s' : State} {cur : Nat} {x : Identity × Id} {rest : List (Identity × Id)}
+    (h : deleteAll s cur (x :: rest) = .ok s') :
+    ∃ s1, deleteEntity s cur x.1.ingr x.2 = .ok s1 ∧ deleteAll s1 cur rest = .ok s' := by
+  obtain ⟨identity, id⟩ := x
+  unfold deleteAll at h
+  split at h
+  · cases h
+  · rename_i s1 h1
+    exact ⟨s1, h1, h⟩
+
+theorem deleteAll_memoGen {s s' : State} {cur : Nat} {l : List (Identity × Id)}
+    (h : deleteAll s cur l = .ok s') (hM : MemoGen s) : MemoGen s' := by
+  induction l generalizing s with
+  | nil => simp only [deleteAll, Except.ok.injEq] at h; exact h ▸ hM
+  | cons x rest ih =>
+    obtain ⟨s1, h1, h2⟩ := deleteAll_cons h
+    obtain ⟨v, r, _, _, _, ht, _⟩ := deleteEntity_spec h1
+    exact ih h2 (ht.memoGen hM (by intro m hm; simp [deadValue] at hm))
+
+structure DeleteAllSpec (s s' : State) (l : List (Identity × Id)) : Prop where
+  freeOK : FreeOK s'
+  freeNodup : FreeNodup s'
+  free : s'.free = s.free ++ l.map (fun x => (x.1.ingr, x.2))
+  others : ∀ k, k ∉ pairIdxs l → s'.slots[k]? = s.slots[k]?
+  dead : ∀ x, x ∈ l → ∃ v, s.slots[x.2.idx]? = some v ∧ s'.slots[x.2.idx]? = some (deadValue v)
+
+theorem deleteAll_spec {s s' : State} {cur : Nat} {l : List (Identity × Id)}
+    (h : deleteAll s cur l = .ok s') (hF : FreeOK s) (hN : FreeNodup s)
+    (hown : ∀ x, x ∈ l → Owns s x.2) (hnd : (pairIdxs l).Nodup) : DeleteAllSpec s s' l := by
+  induction l generalizing s with
+  | nil =>
+    simp only [deleteAll, Except.ok.injEq] at h
+    subst h
+    exact ⟨hF, hN, by simp, fun _ _ => rfl, by intro x hx; simp at hx⟩
+  | cons x rest ih =>
+    obtain ⟨s1, h1, h2⟩ := deleteAll_cons h
+    obtain ⟨v, r, hv, hr, _, ht, hfree⟩ := deleteEntity_spec h1
+    have hnd' : x.2.idx ∉ pairIdxs rest ∧ (pairIdxs rest).Nodup := by
+      simpa [pairIdxs, List.nodup_cons] using hnd
+    have hox : Owns s x.2 := hown x List.mem_cons_self
+    have hgen : v.gen = x.2.gen := by
+      obtain ⟨v', hv', _, hg⟩ := hox
+      rw [hv] at hv'; cases hv'; exact hg
+    have hnotfree : x.2.idx ∉ freeIdxs s.free := by
+      intro hmem
+      obtain ⟨p, hp, hpi⟩ := mem_freeIdxs.mp hmem
+      exact free_not_live hF hp (hpi ▸ hox.live)
+    have hF1 : FreeOK s1 := by
+      intro p hp
+      rw [hfree] at hp
+      rcases List.mem_append.mp hp with hp | hp
+      · have hne : p.2.idx ≠ x.2.idx := fun hc => hnotfree (mem_freeIdxs.mpr ⟨p, hp, hc⟩)
+        unfold DeadAt
+        rw [ht.1 _ hne]
+        exact hF p hp
+      · simp only [List.mem_singleton] at hp
+        subst hp
+        exact ⟨deadValue v, ht.2, rfl, hgen, rfl⟩
+    have hN1 : FreeNodup s1 := by
+      unfold FreeNodup
+      rw [hfree]
+      simp only [freeIdxs, List.map_append, List.map_cons, List.map_nil]
+      rw [List.nodup_append]
+      refine ⟨hN, by simp, ?_⟩
+      intro a ha b hb
+      simp only [List.mem_singleton] at hb
+      subst hb
+      exact fun hc => hnotfree (hc ▸ ha)
+    have hown1 : ∀ y, y ∈ rest → Owns s1 y.2 := by
+      intro y hy
+      have hne : y.2.idx ≠ x.2.idx := fun hc => hnd'.1 (mem_pairIdxs.mpr ⟨y, hy, hc⟩)
+      exact (ht.owns_other hne).mpr (hown y (List.mem_cons_of_mem _ hy))
+    have IH := ih h2 hF1 hN1 hown1 hnd'.2
+    refine ⟨IH.freeOK, IH.freeNodup, ?_, ?_, ?_⟩
+    · rw [IH.free, hfree]; simp
+    · intro k hk
+      have hk' : ¬ k = x.2.idx ∧ k ∉ pairIdxs rest := by
+        simpa [pairIdxs, List.mem_cons] using hk
+      rw [IH.others k hk'.2]
+      exact ht.1 k hk'.1
+    · intro y hy
+      rcases List.mem_cons.mp hy with hy | hy
+      · subst hy
+        refine ⟨v, hv, ?_⟩
+        rw [IH.others _ hnd'.1]
+        exact ht.2
+      · have hne : y.2.idx ≠ x.2.idx := fun hc => hnd'.1 (mem_pairIdxs.mpr ⟨y, hy, hc⟩)
+        obtain ⟨v', hv', hd'⟩ := IH.dead y hy
+        rw [ht.1 _ hne] at hv'
+        exact ⟨v', hv', hd'⟩
+
+/-! ### sortStale is a permutation -/
+
+theorem insertSorted_perm (a : Identity × Id) (l : List (Identity × Id)) :
+    (insertSorted a l).Perm (a :: l) := by
+  induction l with
+  | nil => exact List.Perm.refl _
+  | cons b rest ih =>
+    unfold insertSorted
+    by_cases h : staleLe a b = true
+    · simp only [h, if_true]; exact List.Perm.refl _
+    · simp only [h]
+      exact (List.Perm.cons b ih).trans (List.Perm.swap a b rest)
+
+theorem sortStale_perm (l : List (Identity × Id)) : (sortStale l).Perm l := by
+  induction l with
+  | nil => exact List.Perm.refl _
+  | cons a rest ih =>
+    unfold sortStale
+    exact (insertSorted_perm a _).trans (List.Perm.cons a ih)
+
+/-! ### drain -/
+
+theorem nodup_map_inj {α β : Type} {f : α → β} {l : List α} (h : (l.map f).Nodup) {a b : α}
+    (ha : a ∈ l) (hb : b ∈ l) (hf : f a = f b) : a = b := by
+  induction l with
+  | nil => simp at ha
+  | cons c rest ih =>
+    have h' : f c ∉ rest.map f ∧ (rest.map f).Nodup := by
+      simpa [List.nodup_cons] using h
+    rcases List.mem_cons.mp ha with ha | ha <;> rcases List.mem_cons.mp hb with hb | hb
+    · rw [ha, hb]
+    · exfalso; apply h'.1; rw [← ha, hf]; exact List.mem_map_of_mem hb
+    · exfalso; apply h'.1; rw [← hb, ← hf]; exact List.mem_map_of_mem ha
+    · exact ih h'.2 ha hb
+
+theorem mem_drain_active {m : List Entry} {x : Identity × Id} :
+    x ∈ (IdentityMap.drain m).1 ↔ ∃ e, e ∈ m ∧ e.active = true ∧ e.pair = x := by
+  simp [IdentityMap.drain, List.mem_map, List.mem_filter, and_assoc]
+
+theorem mem_drain_stale {m : List Entry} {x : Identity × Id} :
+    x ∈ (IdentityMap.drain m).2 ↔ ∃ e, e ∈ m ∧ e.active = false ∧ e.pair = x := by
+  unfold IdentityMap.drain
+  rw [(sortStale_perm _).mem_iff]
+  simp [List.mem_map, List.mem_filter, and_assoc]
+
+theorem drain_active_nodup {m : List Entry} (h : (idxs m).Nodup) :
+    (pairIdxs (IdentityMap.drain m).1).Nodup := by
+  unfold IdentityMap.drain pairIdxs
+  simp only [List.map_map]
+  exact List.Nodup.sublist ((List.filter_sublist (l := m)).map _) h
+
+theorem drain_stale_nodup {m : List Entry} (h : (idxs m).Nodup) :
+    (pairIdxs (IdentityMap.drain m).2).Nodup := by
+  unfold IdentityMap.drain pairIdxs
+  simp only
+  rw [((sortStale_perm _).map _).nodup_iff]
+  simp only [List.map_map]
+  exact List.Nodup.sublist ((List.filter_sublist (l := m)).map _) h
+
+theorem drain_disjoint {m : List Entry} (h : (idxs m).Nodup) {x y : Identity × Id}
+    (hx : x ∈ (IdentityMap.drain m).1) (hy : y ∈ (IdentityMap.drain m).2) : x.2.idx ≠ y.2.idx := by
+  obtain ⟨e1, he1, ha1, hp1⟩ := mem_drain_active.mp hx
+  obtain ⟨e2, he2, ha2, hp2⟩ := mem_drain_stale.mp hy
+  intro hc
+  have : e1 = e2 := nodup_map_inj (f := fun e : Entry => e.id.idx) h he1 he2 (by
+    rw [← hp1, ← hp2] at hc; exact hc)
+  rw [this, ha2] at ha1
+  cases ha1
+
+/-! ### seed -/
+
+theorem mem_seed {m : List Entry} {a : List (Identity × Id)} {e : Entry}
+    (h : e ∈ IdentityMap.seed m a) : e ∈ m ∨ (e.pair ∈ a ∧ e.active = false) := by
+  induction a generalizing m with
+  | nil => exact Or.inl h
+  | cons x rest ih =>
+    obtain ⟨key, id⟩ := x
+    simp only [IdentityMap.seed] at h
+    rcases ih h with h1 | h1
+    · rcases mem_insertEntry h1 with h2 | h2
+      · right; rw [h2]; exact ⟨List.mem_cons_self, rfl⟩
+      · exact Or.inl h2
+    · exact Or.inr ⟨List.mem_cons_of_mem _ h1.1, h1.2⟩
+
+theorem seed_idxs_nodup {m : List Entry} {a : List (Identity × Id)}
+    (h : (idxs m ++ pairIdxs a).Nodup) : (idxs (IdentityMap.seed m a)).Nodup := by
+  induction a generalizing m with
+  | nil => simpa [pairIdxs, IdentityMap.seed] using h
+  | cons x rest ih =>
+    obtain ⟨key, id⟩ := x
+    simp only [IdentityMap.seed]
+    apply ih
+    rw [List.nodup_append] at h ⊢
+    obtain ⟨h1, h2, h3⟩ := h
+    have h2' : id.idx ∉ pairIdxs rest ∧ (pairIdxs rest).Nodup := by
+      simpa [pairIdxs, List.nodup_cons] using h2
+    have hfresh : id.idx ∉ idxs m := by
+      intro hc
+      exact h3 _ hc _ (by simp [pairIdxs]) rfl
+    refine ⟨insertEntry_idxs_fresh h1 hfresh, h2'.2, ?_⟩
+    intro n hn b hb
+    rcases mem_idxs_insertEntry hn with h4 | h4
+    · rw [h4]; intro hc; exact h2'.1 (hc ▸ hb)
+    · exact h3 n h4 b (by simp only [pairIdxs, List.map_cons, List.mem_cons]; exact Or.inr hb)
+
+/-! ### the invariant of the multi-creator world -/
+
+/-- the handles a creator holds: the ids in its memo (`idle`) or in its frame (`running`) -/
+def ctxIds : Ctx → List Id
+  | .idle a => a.map (fun x => x.2)
+  | .running f => f.idmap.map (fun e => e.id)
+
+def ctxIdxs : Ctx → List Nat
+  | .idle a => pairIdxs a
+  | .running f => idxs f.idmap
+
+/-- slot indices of all handles held by any creator, creator by creator -/
+def ownedIdxs (w : World) : List Nat := w.ctxs.flatMap ctxIdxs
+
+theorem mem_ctxIdxs {c : Ctx} {n : Nat} : n ∈ ctxIdxs c ↔ ∃ id, id ∈ ctxIds c ∧ id.idx = n := by
+  cases c with
+  | idle a =>
+    simp only [ctxIdxs, ctxIds, pairIdxs, List.mem_map]
+    constructor
+    · rintro ⟨x, hx, hn⟩; exact ⟨x.2, ⟨x, hx, rfl⟩, hn⟩
+    · rintro ⟨id, ⟨x, hx, hid⟩, hn⟩; exact ⟨x, hx, hid ▸ hn⟩
+  | running f =>
+    simp only [ctxIdxs, ctxIds, idxs, List.mem_map]
+    constructor
+    · rintro ⟨e, he, hn⟩; exact ⟨e.id, ⟨e, he, rfl⟩, hn⟩
+    · rintro ⟨id, ⟨e, he, hid⟩, hn⟩; exact ⟨e, he, hid ▸ hn⟩
+
+structure WInv (w : World) : Prop where
+  owns : ∀ c, c ∈ w.ctxs → ∀ id, id ∈ (ctxIds c) → Owns w.st id
+  distinct : (ownedIdxs w).Nodup
+  freeOK : FreeOK w.st
+  freeNodup : FreeNodup w.st
+  memoGen : MemoGen w.st
+
+theorem set_split {α : Type} {l : List α} {q : Nat} {c c' : α} (h : l[q]? = some c) :
+    ∃ l1 l2, l = l1 ++ c :: l2 ∧ l.set q c' = l1 ++ c' :: l2 := by
+  obtain ⟨hq, hc⟩ := List.getElem?_eq_some_iff.mp h
+  refine ⟨l.take q, l.drop (q + 1), ?_, ?_⟩
+  · rw [← hc, List.getElem_cons_drop hq, List.take_append_drop]
+  · rw [List.set_eq_take_append_cons_drop, if_pos hq]
+
+theorem nodup_replace_mid {A X X' B : List Nat} (h : (A ++ X ++ B).Nodup) (hX' : X'.Nodup)
+    (hsub : ∀ n, n ∈ X' → n ∈ X ∨ (n ∉ A ∧ n ∉ B)) : (A ++ X' ++ B).Nodup := by
+  rw [List.nodup_append, List.nodup_append] at h ⊢
+  obtain ⟨⟨hA, hX, hAX⟩, hB, hAXB⟩ := h
+  refine ⟨⟨hA, hX', ?_⟩, hB, ?_⟩
+  · intro a ha b hb
+    rcases hsub b hb with h1 | h1
+    · exact hAX a ha b h1
+    · intro hc; exact h1.1 (hc ▸ ha)
+  · intro a ha b hb
+    rcases List.mem_append.mp ha with ha | ha
+    · exact hAXB a (List.mem_append_left _ ha) b hb
+    · rcases hsub a ha with h1 | h1
+      · exact hAXB a (List.mem_append_right _ h1) b hb
+      · intro hc; exact h1.2 (hc ▸ hb)
+
+/-- replacing creator `q`'s handles (and possibly the state) preserves the invariant -/
+theorem inv_replace {w : World} {q : Nat} {c c' : Ctx} {s' : State} (hI : WInv w)
+    (hq : w.ctxs[q]? = some c) (hF : FreeOK s') (hN : FreeNodup s') (hM : MemoGen s')
+    (hown' : ∀ id, id ∈ (ctxIds c') → Owns s' id) (hnd : (ctxIdxs c').Nodup)
+    (hsub : ∀ n, n ∈ (ctxIdxs c') → n ∈ (ctxIdxs c) ∨ ¬ Live w.st n)
+    (hoth : ∀ id, Owns w.st id → id.idx ∉ (ctxIdxs c) → Owns s' id) :
+    WInv ⟨s', w.ctxs.set q c'⟩ := by
+  obtain ⟨l1, l2, hl, hset⟩ := set_split (c' := c') hq
+  have hdist : (l1.flatMap ctxIdxs ++ (ctxIdxs c) ++ l2.flatMap ctxIdxs).Nodup := by
+    have := hI.distinct
+    unfold ownedIdxs at this
+    rw [hl] at this
+    simpa [List.flatMap_append, List.flatMap_cons, List.append_assoc] using this
+  have hlive1 : ∀ n, n ∈ l1.flatMap ctxIdxs → Live w.st n ∧ n ∉ (ctxIdxs c) := by
+    intro n hn
+    obtain ⟨c0, hc0, hn0⟩ := List.mem_flatMap.mp hn
+    obtain ⟨id, hid, hidx⟩ := mem_ctxIdxs.mp hn0
+    refine ⟨hidx ▸ (hI.owns c0 (by rw [hl]; simp [hc0]) id hid).live, ?_⟩
+    rw [List.nodup_append, List.nodup_append] at hdist
+    intro hc
+    exact hdist.1.2.2 n hn n hc rfl
+  have hlive2 : ∀ n, n ∈ l2.flatMap ctxIdxs → Live w.st n ∧ n ∉ (ctxIdxs c) := by
+    intro n hn
+    obtain ⟨c0, hc0, hn0⟩ := List.mem_flatMap.mp hn
+    obtain ⟨id, hid, hidx⟩ := mem_ctxIdxs.mp hn0
+    refine ⟨hidx ▸ (hI.owns c0 (by rw [hl]; simp [hc0]) id hid).live, ?_⟩
+    rw [List.nodup_append] at hdist
+    intro hc
+    exact hdist.2.2 n (List.mem_append_right _ hc) n hn rfl
+  refine ⟨?_, ?_, hF, hN, hM⟩
+  · intro c0 hc0 id hid
+    simp only [hset, List.mem_append, List.mem_cons] at hc0
+    rcases hc0 with hc0 | hc0 | hc0
+    · have hn : id.idx ∈ l1.flatMap ctxIdxs :=
+        List.mem_flatMap.mpr ⟨c0, hc0, mem_ctxIdxs.mpr ⟨id, hid, rfl⟩⟩
+      exact hoth id (hI.owns c0 (by rw [hl]; simp [hc0]) id hid) (hlive1 _ hn).2
+    · rw [hc0] at hid; exact hown' id hid
+    · have hn : id.idx ∈ l2.flatMap ctxIdxs :=
+        List.mem_flatMap.mpr ⟨c0, hc0, mem_ctxIdxs.mpr ⟨id, hid, rfl⟩⟩
+      exact hoth id (hI.owns c0 (by rw [hl]; simp [hc0]) id hid) (hlive2 _ hn).2
+  · show (List.flatMap ctxIdxs (w.ctxs.set q c')).Nodup
+    rw [hset]
+    have : List.flatMap ctxIdxs (l1 ++ c' :: l2)
+        = l1.flatMap ctxIdxs ++ (ctxIdxs c') ++ l2.flatMap ctxIdxs := by
+      simp [List.flatMap_append, List.flatMap_cons, List.append_assoc]
+    rw [this]
+    apply nodup_replace_mid hdist hnd
+    intro n hn
+    rcases hsub n hn with h1 | h1
+    · exact Or.inl h1
+    · exact Or.inr ⟨fun hc => h1 (hlive1 n hc).1, fun hc => h1 (hlive2 n hc).1⟩
+
+/-- a state change that keeps every valid handle valid preserves the invariant -/
+theorem inv_state {w : World} {s' : State} (hI : WInv w) (hF : FreeOK s') (hN : FreeNodup s')
+    (hM : MemoGen s') (hoth : ∀ id, Owns w.st id → Owns s' id) : WInv ⟨s', w.ctxs⟩ :=
+  ⟨fun c hc id hid => hoth id (hI.owns c hc id hid), hI.distinct, hF, hN, hM⟩
+
+theorem ctx_nodup {w : World} {q : Nat} {c : Ctx} (hI : WInv w) (hq : w.ctxs[q]? = some c) :
+    (ctxIdxs c).Nodup := by
+  obtain ⟨l1, l2, hl, _⟩ := set_split (c' := c) hq
+  have := hI.distinct
+  unfold ownedIdxs at this
+  rw [hl] at this
+  simp only [List.flatMap_append, List.flatMap_cons] at this
+  rw [List.nodup_append] at this
+  have h2 := this.2.1
+  rw [List.nodup_append] at h2
+  exact h2.1
+
+theorem ctx_owns {w : World} {q : Nat} {c : Ctx} (hI : WInv w) (hq : w.ctxs[q]? = some c) :
+    ∀ id, id ∈ ctxIds c → Owns w.st id :=
+  hI.owns c (List.mem_of_getElem? hq)
+
+theorem owns_of_slot_eq {s s' : State} {id : Id} (h : s'.slots[id.idx]? = s.slots[id.idx]?)
+    (ho : Owns s id) : Owns s' id := by
+  unfold Owns at ho ⊢
+  rw [h]; exact ho
+
+theorem winv_empty : WInv World.empty := by
+  refine ⟨?_, ?_, ?_, ?_, ?_⟩
+  · intro c hc; simp [World.empty] at hc
+  · simp [ownedIdxs, World.empty]
+  · intro p hp; simp [World.empty, State.empty] at hp
+  · simp [FreeNodup, freeIdxs, World.empty, State.empty]
+  · intro k v hv; simp [World.empty, State.empty] at hv
+
+/-- a live slot is rewritten keeping its generation and liveness (read, memo insert) -/
+theorem touch_live_inv {w : World} {s' : State} {k : Nat} {v v' : Slot} (hI : WInv w)
+    (hv : w.st.slots[k]? = some v) (hlive : v.updatedAt ≠ none) (ht : Touch w.st s' k v')
+    (hfree : s'.free = w.st.free) (hu : v'.updatedAt ≠ none) (hg : v'.gen = v.gen)
+    (hm : ∀ m, m ∈ v'.memos → m.gen = v'.gen) : WInv ⟨s', w.ctxs⟩ := by
+  have hL : Live w.st k := ⟨v, hv, hlive⟩
+  apply inv_state hI
+  · apply ht.freeOK hI.freeOK
+    intro p hp
+    rw [hfree] at hp
+    exact ⟨hp, fun hc => free_not_live hI.freeOK hp (hc ▸ hL)⟩
+  · unfold FreeNodup; rw [hfree]; exact hI.freeNodup
+  · exact ht.memoGen hI.memoGen hm
+  · intro id ho
+    by_cases hk : id.idx = k
+    · obtain ⟨v0, hv0, _, hg0⟩ := ho
+      rw [hk, hv] at hv0
+      cases hv0
+      exact ⟨v', hk ▸ ht.2, hu, hg.trans hg0⟩
+    · exact (ht.owns_other hk).mpr ho
+
+theorem step_inv {hash : Nat → Nat} {w w' : World} {op : Op} (hI : WInv w)
+    (h : step hash w op = .ok w') : WInv w' := by
+  cases op with
+  | spawn =>
+    simp only [step, Except.ok.injEq] at h
+    subst h
+    refine ⟨?_, ?_, hI.freeOK, hI.freeNodup, hI.memoGen⟩
+    · intro c hc id hid
+      rcases List.mem_append.mp hc with hc | hc
+      · exact hI.owns c hc id hid
+      · simp only [List.mem_singleton] at hc
+        subst hc
+        simp [ctxIds] at hid
+    · have := hI.distinct
+      simpa [ownedIdxs, List.flatMap_append, ctxIdxs, pairIdxs] using this
+  | «begin» q =>
+    simp only [step] at h
+    split at h
+    · rename_i a hq
+      simp only [Except.ok.injEq] at h
+      subst h
+      have hnd := ctx_nodup hI hq
+      have hown := ctx_owns hI hq
+      apply inv_replace hI hq hI.freeOK hI.freeNodup hI.memoGen
+      · intro id hid
+        simp only [ctxIds, List.mem_map, Frame.seed] at hid
+        obtain ⟨e, he, heid⟩ := hid
+        rcases mem_seed he with h1 | ⟨h1, _⟩
+        · simp at h1
+        · apply hown
+          simp only [ctxIds, List.mem_map]
+          exact ⟨e.pair, h1, heid⟩
+      · simp only [ctxIdxs, Frame.seed]
+        apply seed_idxs_nodup
+        simpa [idxs, ctxIdxs] using hnd
+      · intro n hn
+        left
+        simp only [ctxIdxs, Frame.seed] at hn ⊢
+        obtain ⟨e, he, hen⟩ := mem_idxs.mp hn
+        rcases mem_seed he with h1 | ⟨h1, _⟩
+        · simp at h1
+        · exact mem_pairIdxs.mpr ⟨e.pair, h1, hen⟩
+      · intro id ho _; exact ho
+    · cases h
+  | new q cur dur ca g fields =>
+    simp only [step] at h
+    split at h
+    · rename_i f hq
+      split at h
+      · cases h
+      · rename_i out hns
+        simp only [Except.ok.injEq] at h
+        subst h
+        have hnd := ctx_nodup hI hq
+        have hown := ctx_owns hI hq
+        have hN := newStruct_inv hns hI.freeOK hI.freeNodup
+          (by intro e he; apply hown; simp only [ctxIds, List.mem_map]; exact ⟨e, he, rfl⟩) hnd
+        apply inv_replace hI hq hN.freeOK hN.freeNodup (newStruct_memoGen hns hI.memoGen)
+        · intro id hid
+          simp only [ctxIds, List.mem_map] at hid
+          obtain ⟨e, he, heid⟩ := hid
+          exact heid ▸ hN.owns e he
+        · exact hN.nodup
+        · exact hN.sub
+        · intro id ho hni
+          exact owns_of_slot_eq (hN.others id.idx hni ho.live) ho
+    · cases h
+  | finish q cur =>
+    simp only [step] at h
+    split at h
+    · rename_i f hq
+      split at h
+      · cases h
+      · rename_i s2 hdel
+        simp only [Except.ok.injEq] at h
+        subst h
+        have hnd : (idxs f.idmap).Nodup := ctx_nodup hI hq
+        have hown := ctx_owns hI hq
+        have hownE : ∀ e, e ∈ f.idmap → Owns w.st e.id := by
+          intro e he; apply hown; simp only [ctxIds, List.mem_map]; exact ⟨e, he, rfl⟩
+        have hstale_idx : ∀ n, n ∈ pairIdxs (IdentityMap.drain f.idmap).2 → n ∈ idxs f.idmap := by
+          intro n hn
+          obtain ⟨x, hx, hxn⟩ := mem_pairIdxs.mp hn
+          obtain ⟨e, he, _, hp⟩ := mem_drain_stale.mp hx
+          exact mem_idxs.mpr ⟨e, he, by rw [← hxn, ← hp]; rfl⟩
+        have hS := deleteAll_spec hdel hI.freeOK hI.freeNodup (by
+          intro x hx
+          obtain ⟨e, he, _, hp⟩ := mem_drain_stale.mp hx
+          rw [← hp]; exact hownE e he) (drain_stale_nodup hnd)
+        apply inv_replace hI hq hS.freeOK hS.freeNodup (deleteAll_memoGen hdel hI.memoGen)
+        · intro id hid
+          simp only [ctxIds, List.mem_map] at hid
+          obtain ⟨x, hx, hxid⟩ := hid
+          obtain ⟨e, he, _, hp⟩ := mem_drain_active.mp hx
+          have ho : Owns w.st id := by rw [← hxid, ← hp]; exact hownE e he
+          apply owns_of_slot_eq _ ho
+          apply hS.others
+          intro hmem
+          obtain ⟨y, hy, hyn⟩ := mem_pairIdxs.mp hmem
+          exact drain_disjoint hnd hx hy (by rw [hxid, hyn])
+        · exact drain_active_nodup hnd
+        · intro n hn
+          left
+          obtain ⟨x, hx, hxn⟩ := mem_pairIdxs.mp hn
+          obtain ⟨e, he, _, hp⟩ := mem_drain_active.mp hx
+          exact mem_idxs.mpr ⟨e, he, by rw [← hxn, ← hp]; rfl⟩
+        · intro id ho hni
+          apply owns_of_slot_eq _ ho
+          apply hS.others
+          exact fun hmem => hni (hstale_idx _ hmem)
+    · cases h
+  | discard q cur =>
+    simp only [step] at h
+    split at h
+    · rename_i a hq
+      split at h
+      · cases h
+      · rename_i s2 hdel
+        simp only [Except.ok.injEq] at h
+        subst h
+        have hnd : (pairIdxs a).Nodup := ctx_nodup hI hq
+        have hown := ctx_owns hI hq
+        have hS := deleteAll_spec hdel hI.freeOK hI.freeNodup (by
+          intro x hx; apply hown; simp only [ctxIds, List.mem_map]; exact ⟨x, hx, rfl⟩) hnd
+        apply inv_replace hI hq hS.freeOK hS.freeNodup (deleteAll_memoGen hdel hI.memoGen)
+        · intro id hid; simp [ctxIds] at hid
+        · simp [ctxIdxs, pairIdxs]
+        · intro n hn; simp [ctxIdxs, pairIdxs] at hn
+        · intro id ho hni
+          exact owns_of_slot_eq (hS.others _ hni) ho
+    · cases h
+  | read cur idx =>
+    simp only [step] at h
+    split at h
+    · cases h
+    · rename_i s2 hrd
+      simp only [Except.ok.injEq] at h
+      subst h
+      obtain ⟨v, r, hv, hr, hs⟩ := readField_cases hrd
+      subst hs
+      exact touch_live_inv hI hv (by rw [hr]; simp) (touch_set hv) rfl (by simp) rfl
+        (fun m hm => hI.memoGen idx v hv m hm)
+  | addMemo idx payload =>
+    simp only [step] at h
+    split at h
+    · cases h
+    · rename_i s2 hrd
+      simp only [Except.ok.injEq] at h
+      subst h
+      obtain ⟨v, r, hv, hr, hs⟩ := addMemo_cases hrd
+      subst hs
+      refine touch_live_inv hI hv (by rw [hr]; simp) (touch_set hv) rfl (by rw [hr]; simp) rfl ?_
+      intro m hm
+      simp only [List.mem_cons] at hm
+      rcases hm with hm | hm
+      · rw [hm]
+      · exact hI.memoGen idx v hv m hm
+
+theorem runOps_inv {hash : Nat → Nat} {w w' : World} {ops : List Op} (hI : WInv w)
+    (h : runOps hash w ops = .ok w') : WInv w' := by
+  induction ops generalizing w with
+  | nil => simp only [runOps, Except.ok.injEq] at h; exact h ▸ hI
+  | cons op rest ih =>
+    unfold runOps at h
+    split at h
+    · cases h
+    · rename_i w1 h1
+      exact ih (step_inv hI h1) h
+
+theorem flatMap_nodup_cross {α : Type} {f : α → List Nat} {l : List α}
+    (h : (l.flatMap f).Nodup) {i j : Nat} {a b : α} (hi : l[i]? = some a) (hj : l[j]? = some b)
+    (hij : i ≠ j) {x : Nat} (hx : x ∈ f a) : x ∉ f b := by
+  induction l generalizing i j with
+  | nil => simp at hi
+  | cons c rest ih =>
+    simp only [List.flatMap_cons] at h
+    rw [List.nodup_append] at h
+    obtain ⟨_, h2, h3⟩ := h
+    cases i with
+    | zero =>
+      cases j with
+      | zero => exact absurd rfl hij
+      | succ j =>
+        simp only [List.getElem?_cons_zero, Option.some.injEq] at hi
+        simp only [List.getElem?_cons_succ] at hj
+        subst hi
+        intro hxb
+        exact h3 x hx x (List.mem_flatMap.mpr ⟨b, List.mem_of_getElem? hj, hxb⟩) rfl
+    | succ i =>
+      simp only [List.getElem?_cons_succ] at hi
+      cases j with
+      | zero =>
+        simp only [List.getElem?_cons_zero, Option.some.injEq] at hj
+        subst hj
+        intro hxb
+        exact h3 x hxb x (List.mem_flatMap.mpr ⟨a, List.mem_of_getElem? hi, hx⟩) rfl
+      | succ j =>
+        simp only [List.getElem?_cons_succ] at hj
+        exact ih h2 hi hj (fun hc => hij (by rw [hc]))
+
+/-- handles of different creators never share a slot -/
+theorem winv_cross {w : World} (hI : WInv w) {q1 q2 : Nat} {c1 c2 : Ctx}
+    (h1 : w.ctxs[q1]? = some c1) (h2 : w.ctxs[q2]? = some c2) (hne : q1 ≠ q2) {n : Nat}
+    (hn : n ∈ ctxIdxs c1) : n ∉ ctxIdxs c2 :=
+  flatMap_nodup_cross hI.distinct h1 h2 hne hn
+
+/-- a live handle is never on the free list -/
+theorem winv_not_free {w : World} (hI : WInv w) {c : Ctx} (hc : c ∈ w.ctxs) {id : Id}
+    (hid : id ∈ ctxIds c) : id.idx ∉ freeIdxs w.st.free := by
+  intro hmem
+  obtain ⟨p, hp, hpi⟩ := mem_freeIdxs.mp hmem
+  exact free_not_live hI.freeOK hp (hpi ▸ (hI.owns c hc id hid).live)
+
+/-! ### entries that are not re-created stay untouched (towards `c06_dropped`) -/
+
+theorem newStruct_idmap {hash : Nat → Nat} {cur dur ca g : Nat} {fields : Fields} {f : Frame}
+    {s : State} {out : NewStruct} (h : newStruct hash cur dur ca g fields f s = .ok out) :
+    out.frame.idmap = IdentityMap.markActive f.idmap out.identity ∨
+    ∃ id', out.frame.idmap
+      = IdentityMap.insertEntry (IdentityMap.markActive f.idmap out.identity) out.identity id' true := by
+  obtain ⟨hI, _, hcase⟩ := newStruct_cases h
+  rw [hI]
+  rcases hcase with ⟨id, v, _, _, _, hmap, _, _⟩ | ⟨id, v, last, s2, id2, _, _, _, _, _, _, hmap, _, _⟩ |
+    ⟨id, v, last, _, _, _, _, _, _, hch⟩ | ⟨_, s2, id2, _, hmap, _, _⟩
+  · exact Or.inl hmap
+  · exact Or.inr ⟨id2, hmap⟩
+  · rcases hch with ⟨_, _, hmap⟩ | ⟨_, _, hmap⟩
+    · exact Or.inl hmap
+    · exact Or.inr ⟨_, hmap⟩
+  · exact Or.inr ⟨id2, hmap⟩
+
+theorem newStruct_keeps_entry {hash : Nat → Nat} {cur dur ca g : Nat} {fields : Fields} {f : Frame}
+    {s : State} {out : NewStruct} (h : newStruct hash cur dur ca g fields f s = .ok out)
+    {e : Entry} (he : e ∈ f.idmap) (hne : e.identity ≠ out.identity) : e ∈ out.frame.idmap := by
+  rcases newStruct_idmap h with hm | ⟨id', hm⟩
+  · rw [hm]; exact mem_markActive_of_ne he hne
+  · rw [hm]; exact mem_insertEntry_of_ne (mem_markActive_of_ne he hne) hne
+
+theorem newStruct_keeps_inactive {hash : Nat → Nat} {cur dur ca g : Nat} {fields : Fields}
+    {f : Frame} {s : State} {out : NewStruct}
+    (h : newStruct hash cur dur ca g fields f s = .ok out) {I : Identity}
+    (hin : ∀ e, e ∈ f.idmap → e.identity = I → e.active = false) (hne : I ≠ out.identity) :
+    ∀ e, e ∈ out.frame.idmap → e.identity = I → e.active = false := by
+  have hm1 : ∀ e, e ∈ IdentityMap.markActive f.idmap out.identity → e.identity = I →
+      e.active = false := by
+    intro e he hI
+    obtain ⟨e0, h0, h1, _, h3⟩ := mem_markActive he
+    rcases h3 with h3 | h3
+    · rw [h3]; exact hin e0 h0 (h1 ▸ hI)
+    · exact absurd (hI.symm.trans h3) hne
+  intro e he hI
+  rcases newStruct_idmap h with hm | ⟨id', hm⟩
+  · rw [hm] at he; exact hm1 e he hI
+  · rw [hm] at he
+    rcases mem_insertEntry he with h1 | h1
+    · rw [h1] at hI; exact absurd hI.symm hne
+    · exact hm1 e h1 hI
+
+theorem runCreations_keeps {hash : Nat → Nat} {cur : Nat} {cs : List Creation} {f f' : Frame}
+    {s s' : State} {rs : List (Identity × Id)}
+    (h : runCreations hash cur cs f s = .ok (f', s', rs)) {e : Entry} (he : e ∈ f.idmap)
+    (hne : ∀ r, r ∈ rs → r.1 ≠ e.identity)
+    (hin : ∀ e', e' ∈ f.idmap → e'.identity = e.identity → e'.active = false) :
+    e ∈ f'.idmap ∧ ∀ e', e' ∈ f'.idmap → e'.identity = e.identity → e'.active = false := by
+  induction cs generalizing f s rs with
+  | nil =>
+    simp only [runCreations, Except.ok.injEq, Prod.mk.injEq] at h
+    obtain ⟨h1, _, _⟩ := h
+    subst h1
+    exact ⟨he, hin⟩
+  | cons c rest ih =>
+    obtain ⟨out, f1, s1, rs1, hns, hrest, hr⟩ := runCreations_cons h
+    simp only [Prod.mk.injEq] at hr
+    obtain ⟨hr1, hr2, hr3⟩ := hr
+    subst hr1
+    subst hr2
+    have hne0 : out.identity ≠ e.identity := hne (out.identity, out.id) (by rw [hr3]; simp)
+    apply ih hrest (newStruct_keeps_entry hns he (Ne.symm hne0))
+    · intro r hr; exact hne r (by rw [hr3]; exact List.mem_cons_of_mem _ hr)
+    · exact newStruct_keeps_inactive hns hin (Ne.symm hne0)
+
+theorem deleteAll_keeps_dead {s s' : State} {cur : Nat} {l : List (Identity × Id)}
+    (h : deleteAll s cur l = .ok s') {k : Nat} {v : Slot} (hv : s.slots[k]? = some v)
+    (hd : v.updatedAt = none) : s'.slots[k]? = some v := by
+  induction l generalizing s with
+  | nil => simp only [deleteAll, Except.ok.injEq] at h; exact h ▸ hv
+  | cons x rest ih =>
+    obtain ⟨s1, h1, h2⟩ := deleteAll_cons h
+    obtain ⟨v1, r, hv1, hr, _, ht, _⟩ := deleteEntity_spec h1
+    have hne : k ≠ x.2.idx := by
+      intro hc
+      rw [hc, hv1] at hv
+      cases hv
+      rw [hd] at hr; cases hr
+    apply ih h2
+    rw [ht.1 k hne]; exact hv
+
+theorem deleteAll_free {s s' : State} {cur : Nat} {l : List (Identity × Id)}
+    (h : deleteAll s cur l = .ok s') : s'.free = s.free ++ l.map (fun x => (x.1.ingr, x.2)) := by
+  induction l generalizing s with
+  | nil => simp only [deleteAll, Except.ok.injEq] at h; subst h; simp
+  | cons x rest ih =>
+    obtain ⟨s1, h1, h2⟩ := deleteAll_cons h
+    obtain ⟨_, _, _, _, _, _, hf⟩ := deleteEntity_spec h1
+    rw [ih h2, hf]; simp
+
+theorem deleteAll_dead {s s' : State} {cur : Nat} {l : List (Identity × Id)}
+    (h : deleteAll s cur l = .ok s') {x : Identity × Id} (hx : x ∈ l) :
+    ∃ v, s'.slots[x.2.idx]? = some v ∧ v.updatedAt = none ∧ v.memos = [] := by
+  induction l generalizing s with
+  | nil => simp at hx
+  | cons y rest ih =>
+    obtain ⟨s1, h1, h2⟩ := deleteAll_cons h
+    rcases List.mem_cons.mp hx with hx | hx
+    · subst hx
+      obtain ⟨v1, _, _, _, _, ht, _⟩ := deleteEntity_spec h1
+      exact ⟨deadValue v1, deleteAll_keeps_dead h2 ht.2 rfl, rfl, rfl⟩
+    · exact ih h2 hx
+
+theorem runExecution_cases {hash : Nat → Nat} {cur : Nat} {prev : List (Identity × Id)}
+    {cs : List Creation} {s : State} {out : ExecOut}
+    (h : runExecution hash cur prev cs s = .ok out) :
+    ∃ f1 s1, runCreations hash cur cs (Frame.seed prev) s = .ok (f1, s1, out.created) ∧
+      deleteAll s1 cur (IdentityMap.drain f1.idmap).2 = .ok out.state ∧
+      out.active = (IdentityMap.drain f1.idmap).1 ∧ out.stale = (IdentityMap.drain f1.idmap).2 := by
+  unfold runExecution at h
+  split at h
+  · cases h
+  · rename_i f1 s1 rs hrun
+    split at h
+    · cases h
+    · rename_i s2 hdel
+      simp only [Except.ok.injEq] at h
+      subst h
+      exact ⟨f1, s1, hrun, hdel, rfl, rfl⟩
+
+/-- exact characterisation of the results of `deleteEntity` -/
+theorem deleteEntity_error_iff {s : State} {cur g : Nat} {id : Id} {p : Panic} :
+    deleteEntity s cur g id = .error p ↔
+      (s.slots[id.idx]? = none ∧ p = .badId) ∨
+      (∃ v, s.slots[id.idx]? = some v ∧ v.updatedAt = none ∧ p = .deleteWriteLocked) ∨
+      (∃ v, s.slots[id.idx]? = some v ∧ v.updatedAt = some cur ∧ p = .deleteReadLocked) := by
+  unfold deleteEntity
+  cases hv : s.slots[id.idx]? with
+  | none => simp [eq_comm]
+  | some v =>
+    cases hu : v.updatedAt with
+    | none => simp [hu, eq_comm]
+    | some r =>
+      by_cases hr : r = cur
+      · simp [hu, hr, eq_comm]
+      · simp [hu, hr]
+
+/-! ### re-creation under the same identity (towards `c06_same_id`, `c06_memos_kept`) -/
+
+/-- invariant of one executing frame against the table -/
+structure FInv (f : Frame) (s : State) : Prop where
+  freeOK : FreeOK s
+  freeNodup : FreeNodup s
+  owns : ∀ e, e ∈ f.idmap → Owns s e.id
+  nodup : (idxs f.idmap).Nodup
+
+theorem newStruct_finv {hash : Nat → Nat} {cur dur ca g : Nat} {fields : Fields} {f : Frame}
+    {s : State} {out : NewStruct} (h : newStruct hash cur dur ca g fields f s = .ok out)
+    (hI : FInv f s) : FInv out.frame out.state :=
+  let hN := newStruct_inv h hI.freeOK hI.freeNodup hI.owns hI.nodup
+  ⟨hN.freeOK, hN.freeNodup, hN.owns, hN.nodup⟩
+
+theorem finv_seed {prev : List (Identity × Id)} {s : State} (hF : FreeOK s) (hN : FreeNodup s)
+    (hown : ∀ x, x ∈ prev → Owns s x.2) (hnd : (pairIdxs prev).Nodup) :
+    FInv (Frame.seed prev) s := by
+  refine ⟨hF, hN, ?_, ?_⟩
+  · intro e he
+    rcases mem_seed he with h1 | ⟨h1, _⟩
+    · simp at h1
+    · exact hown e.pair h1
+  · apply seed_idxs_nodup
+    simpa [idxs] using hnd
+
+theorem updateField_same (x : Nat) : updateField x x = (x, false) := by simp [updateField]
+
+theorem updateTracked_fields (ca : Nat) (revs old new : List Nat) :
+    (updateTracked ca revs old new).2 = new := by
+  induction new generalizing revs old with
+  | nil => cases revs <;> cases old <;> simp [updateTracked]
+  | cons n ns ih =>
+    cases revs with
+    | nil => simp [updateTracked]
+    | cons r rs =>
+      cases old with
+      | nil => simp [updateTracked]
+      | cons o os =>
+        simp only [updateTracked, ih]
+        by_cases h : o = n
+        · simp [updateField, h]
+        · simp [updateField, h]
+
+/-- a tracked field whose value did not change keeps its revision; a changed one gets the
+    creator's `changed_at` -/
+theorem updateTracked_revs (ca : Nat) (revs old new : List Nat) (i : Nat) (rv o n : Nat)
+    (hr : revs[i]? = some rv) (ho : old[i]? = some o) (hn : new[i]? = some n) :
+    (updateTracked ca revs old new).1[i]? = some (if o = n then rv else ca) := by
+  induction i generalizing revs old new with
+  | zero =>
+    cases revs with
+    | nil => simp at hr
+    | cons r rs =>
+      cases old with
+      | nil => simp at ho
+      | cons o' os =>
+        cases new with
+        | nil => simp at hn
+        | cons n' ns =>
+          simp only [List.getElem?_cons_zero, Option.some.injEq] at hr ho hn
+          subst hr; subst ho; subst hn
+          by_cases h : o' = n' <;> simp [updateTracked, updateField, h]
+  | succ i ih =>
+    cases revs with
+    | nil => simp at hr
+    | cons r rs =>
+      cases old with
+      | nil => simp at ho
+      | cons o' os =>
+        cases new with
+        | nil => simp at hn
+        | cons n' ns =>
+          simp only [List.getElem?_cons_succ] at hr ho hn
+          simp only [updateTracked, List.getElem?_cons_succ]
+          exact ih rs os ns hr ho hn
+
+theorem updateFields_fields (ca : Nat) (revs : List Nat) (old new : Fields) :
+    (updateFields ca revs old new).fields = new := by
+  unfold updateFields
+  simp only [updateTracked_fields]
+  by_cases h : old.idv = new.idv
+  · simp [updateField, h]
+  · simp [updateField, h]
+
+theorem updateFields_changed (ca : Nat) (revs : List Nat) (old new : Fields) :
+    (updateFields ca revs old new).identityChanged = decide (old.idv ≠ new.idv) := by
+  unfold updateFields
+  by_cases h : old.idv = new.idv
+  · simp [updateField, h]
+  · simp [updateField, h]
+
+/-- S1: the creation hits an entry whose slot holds the same identity value and is either already
+    touched in this revision or has a generation to spare: same id, memos kept. -/
+theorem newStruct_hit_same {hash : Nat → Nat} {cur dur ca g : Nat} {fields : Fields} {f : Frame}
+    {s : State} {out : NewStruct} (h : newStruct hash cur dur ca g fields f s = .ok out)
+    {id : Id} {v : Slot} {r : Nat}
+    (hfind : IdentityMap.find f.idmap out.identity = some id) (hv : s.slots[id.idx]? = some v)
+    (hu : v.updatedAt = some r) (hgen : r = cur ∨ id.gen < GEN_MAX)
+    (hidv : v.fields.idv = fields.idv) :
+    out.id = id ∧
+    out.state.slots[id.idx]? = some (if r = cur then v else updatedValue v cur dur ca id fields) ∧
+    (updateFields ca v.revs v.fields fields).identityChanged = false := by
+  have hch : (updateFields ca v.revs v.fields fields).identityChanged = false := by
+    rw [updateFields_changed]; simp [hidv]
+  obtain ⟨hI, _, hcase⟩ := newStruct_cases h
+  rw [hI] at hfind
+  rcases hcase with ⟨id', v', hfind', hv', hu', _, hs, hid⟩ |
+    ⟨id', v', last, s2, id2, hfind', hv', hu', hne, hge, _⟩ |
+    ⟨id', v', last, hfind', hv', hu', hne, _, hs, hc⟩ | ⟨hfind', _⟩
+  · rw [hfind] at hfind'; cases hfind'
+    rw [hv] at hv'; cases hv'
+    rw [hu] at hu'; cases hu'
+    exact ⟨hid, by rw [hs]; simp [hv], hch⟩
+  · rw [hfind] at hfind'; cases hfind'
+    rw [hv] at hv'; cases hv'
+    rw [hu] at hu'; cases hu'
+    rcases hgen with h1 | h1
+    · exact absurd h1 hne
+    · exact absurd hge (Nat.not_le_of_lt h1)
+  · rw [hfind] at hfind'; cases hfind'
+    rw [hv] at hv'; cases hv'
+    rw [hu] at hu'; cases hu'
+    rcases hc with ⟨_, hid, _⟩ | ⟨hc1, _, _⟩
+    · refine ⟨hid, ?_, hch⟩
+      rw [hs]
+      simp only [hne, if_false]
+      exact getElem?_set_self' hv
+    · rw [hch] at hc1; cases hc1
+  · rw [hfind] at hfind'; cases hfind'
+
+theorem newStruct_find_self {hash : Nat → Nat} {cur dur ca g : Nat} {fields : Fields} {f : Frame}
+    {s : State} {out : NewStruct} (h : newStruct hash cur dur ca g fields f s = .ok out) :
+    IdentityMap.find out.frame.idmap out.identity = some out.id := by
+  obtain ⟨hI, _, hcase⟩ := newStruct_cases h
+  rw [hI]
+  rcases hcase with ⟨id, v, hfind, _, _, hmap, _, hid⟩ |
+    ⟨id, v, last, s2, id2, _, _, _, _, _, _, hmap, _, hid⟩ |
+    ⟨id, v, last, hfind, _, _, _, _, _, hc⟩ | ⟨_, s2, id2, _, hmap, _, hid⟩
+  · rw [hmap, hid]; unfold nsM1; rw [find_markActive]; exact hfind
+  · rw [hmap, hid, find_insertEntry]; simp
+  · rcases hc with ⟨_, hid, hmap⟩ | ⟨_, hid, hmap⟩
+    · rw [hmap, hid]; unfold nsM1; rw [find_markActive]; exact hfind
+    · rw [hmap, hid, find_insertEntry]; simp
+  · rw [hmap, hid, find_insertEntry]; simp
+
+/-- S2: a creation does not disturb the entry and the slot of any OTHER identity -/
+theorem newStruct_other {hash : Nat → Nat} {cur dur ca g : Nat} {fields : Fields} {f : Frame}
+    {s : State} {out : NewStruct} (h : newStruct hash cur dur ca g fields f s = .ok out)
+    (hI : FInv f s) {I' : Identity} {id' : Id} (hne : I' ≠ out.identity)
+    (hfind : IdentityMap.find f.idmap I' = some id') :
+    IdentityMap.find out.frame.idmap I' = some id' ∧
+    out.state.slots[id'.idx]? = s.slots[id'.idx]? := by
+  constructor
+  · rcases newStruct_idmap h with hm | ⟨idn, hm⟩
+    · rw [hm, find_markActive]; exact hfind
+    · rw [hm, find_insertEntry, if_neg (Ne.symm hne), find_markActive]; exact hfind
+  · obtain ⟨e, he, _, heid⟩ := find_some_mem hfind
+    have hlive : Live s id'.idx := heid ▸ (hI.owns e he).live
+    have halloc : ∀ s2 id2, allocate s cur dur ca g fields = .ok (s2, id2) →
+        s2.slots[id'.idx]? = s.slots[id'.idx]? := by
+      intro s2 id2 ha
+      obtain ⟨hnl, ht, _⟩ := allocate_spec ha hI.freeOK hI.freeNodup
+      exact ht.1 _ (fun hc => hnl (hc ▸ hlive))
+    obtain ⟨hIo, _, hcase⟩ := newStruct_cases h
+    rw [hIo] at hne
+    rcases hcase with ⟨id, v, _, _, _, _, hs, _⟩ | ⟨id, v, last, s2, id2, _, _, _, _, _, ha, _, hs, _⟩ |
+      ⟨id, v, last, hfind0, hv, _, _, _, hs, _⟩ | ⟨_, s2, id2, ha, _, hs, _⟩
+    · rw [hs]
+    · rw [hs]; exact halloc s2 id2 ha
+    · rw [hs]
+      have := find_idx_ne hI.nodup hfind hfind0 hne
+      exact List.getElem?_set_ne (Ne.symm this)
+    · rw [hs]; exact halloc s2 id2 ha
+
+theorem runCreations_finv {hash : Nat → Nat} {cur : Nat} {cs : List Creation} {f f' : Frame}
+    {s s' : State} {rs : List (Identity × Id)}
+    (h : runCreations hash cur cs f s = .ok (f', s', rs)) (hI : FInv f s) : FInv f' s' := by
+  induction cs generalizing f s rs with
+  | nil =>
+    simp only [runCreations, Except.ok.injEq, Prod.mk.injEq] at h
+    obtain ⟨h1, h2, _⟩ := h
+    subst h1; subst h2; exact hI
+  | cons c rest ih =>
+    obtain ⟨out, f1, s1, rs1, hns, hrest, hr⟩ := runCreations_cons h
+    simp only [Prod.mk.injEq] at hr
+    obtain ⟨hr1, hr2, _⟩ := hr
+    subst hr1; subst hr2
+    exact ih hrest (newStruct_finv hns hI)
+
+theorem runCreations_other {hash : Nat → Nat} {cur : Nat} {cs : List Creation} {f f' : Frame}
+    {s s' : State} {rs : List (Identity × Id)}
+    (h : runCreations hash cur cs f s = .ok (f', s', rs)) (hI : FInv f s) {I' : Identity} {id' : Id}
+    (hne : ∀ r, r ∈ rs → r.1 ≠ I') (hfind : IdentityMap.find f.idmap I' = some id') :
+    IdentityMap.find f'.idmap I' = some id' ∧ s'.slots[id'.idx]? = s.slots[id'.idx]? := by
+  induction cs generalizing f s rs with
+  | nil =>
+    simp only [runCreations, Except.ok.injEq, Prod.mk.injEq] at h
+    obtain ⟨h1, h2, _⟩ := h
+    subst h1; subst h2; exact ⟨hfind, rfl⟩
+  | cons c rest ih =>
+    obtain ⟨out, f1, s1, rs1, hns, hrest, hr⟩ := runCreations_cons h
+    simp only [Prod.mk.injEq] at hr
+    obtain ⟨hr1, hr2, hr3⟩ := hr
+    subst hr1; subst hr2
+    have hne0 : I' ≠ out.identity := Ne.symm (hne (out.identity, out.id) (by rw [hr3]; simp))
+    obtain ⟨hf1, hs1⟩ := newStruct_other hns hI hne0 hfind
+    obtain ⟨hf2, hs2⟩ := ih hrest (newStruct_finv hns hI)
+      (fun r hr => hne r (by rw [hr3]; exact List.mem_cons_of_mem _ hr)) hf1
+    exact ⟨hf2, hs2.trans hs1⟩
+
+/-- identities registered later in the same execution have a disambiguator at least the current
+    counter of their key -/
+theorem runCreations_disamb_ge {hash : Nat → Nat} {cur : Nat} {cs : List Creation} {f f' : Frame}
+    {s s' : State} {rs : List (Identity × Id)}
+    (h : runCreations hash cur cs f s = .ok (f', s', rs)) :
+    ∀ r, r ∈ rs → DisambiguatorMap.get f.disamb (r.1.ingr, r.1.hash) ≤ r.1.disamb := by
+  induction cs generalizing f s rs with
+  | nil =>
+    simp only [runCreations, Except.ok.injEq, Prod.mk.injEq] at h
+    obtain ⟨_, _, h3⟩ := h
+    subst h3
+    intro r hr; simp at hr
+  | cons c rest ih =>
+    obtain ⟨out, f1, s1, rs1, hns, hrest, hr⟩ := runCreations_cons h
+    simp only [Prod.mk.injEq] at hr
+    obtain ⟨hr1, hr2, hr3⟩ := hr
+    subst hr1; subst hr2
+    obtain ⟨hid, hget⟩ := newStruct_disamb hns
+    intro r hrm
+    rw [hr3] at hrm
+    rcases List.mem_cons.mp hrm with h1 | h1
+    · rw [h1]; simp only; rw [hid]; exact Nat.le_refl _
+    · have := ih hrest r h1
+      rw [hget] at this
+      by_cases hk : (c.ingr, hash c.fields.idv) = (r.1.ingr, r.1.hash)
+      · rw [if_pos hk, hk] at this; omega
+      · rw [if_neg hk] at this; exact this
+
+/-- the identities registered in one execution are pairwise distinct -/
+theorem runCreations_head_ne {hash : Nat → Nat} {cur : Nat} {c : Creation} {rest : List Creation}
+    {f : Frame} {s : State} {out : NewStruct} {f' : Frame} {s' : State} {rs : List (Identity × Id)}
+    (hns : newStruct hash cur c.dur c.changedAt c.ingr c.fields f s = .ok out)
+    (hrest : runCreations hash cur rest out.frame out.state = .ok (f', s', rs)) :
+    ∀ r, r ∈ rs → r.1 ≠ out.identity := by
+  intro r hr heq
+  have hge := runCreations_disamb_ge hrest r hr
+  obtain ⟨hid, hget⟩ := newStruct_disamb hns
+  rw [hget, heq, hid] at hge
+  simp only [if_true] at hge
+  omega
+
+theorem runCreations_same_id {hash : Nat → Nat} {cur : Nat} {cs : List Creation} {f f' : Frame}
+    {s s' : State} {rs : List (Identity × Id)}
+    (h : runCreations hash cur cs f s = .ok (f', s', rs)) (hI : FInv f s)
+    {j : Nat} {c : Creation} {I : Identity} {idj id : Id} {v : Slot} {r : Nat}
+    (hc : cs[j]? = some c) (hr : rs[j]? = some (I, idj))
+    (hfind : IdentityMap.find f.idmap I = some id) (hv : s.slots[id.idx]? = some v)
+    (hu : v.updatedAt = some r) (hgen : r = cur ∨ id.gen < GEN_MAX)
+    (hidv : v.fields.idv = c.fields.idv) :
+    idj = id ∧
+    s'.slots[id.idx]?
+      = some (if r = cur then v else updatedValue v cur c.dur c.changedAt id c.fields) ∧
+    IdentityMap.find f'.idmap I = some id := by
+  induction cs generalizing f s rs j with
+  | nil => simp at hc
+  | cons c0 rest ih =>
+    obtain ⟨out, f1, s1, rs1, hns, hrest, hrr⟩ := runCreations_cons h
+    simp only [Prod.mk.injEq] at hrr
+    obtain ⟨hr1, hr2, hr3⟩ := hrr
+    subst hr1; subst hr2; subst hr3
+    have hhead := runCreations_head_ne hns hrest
+    have hI1 := newStruct_finv hns hI
+    cases j with
+    | zero =>
+      simp only [List.getElem?_cons_zero, Option.some.injEq, Prod.mk.injEq] at hc hr
+      subst hc
+      obtain ⟨hrI, hrid⟩ := hr
+      subst hrI
+      obtain ⟨h1, h2, _⟩ := newStruct_hit_same hns hfind hv hu hgen hidv
+      have hself := newStruct_find_self hns
+      rw [h1] at hself
+      obtain ⟨h3, h4⟩ := runCreations_other hrest hI1 hhead hself
+      exact ⟨hrid ▸ h1, h4.trans h2, h3⟩
+    | succ j =>
+      simp only [List.getElem?_cons_succ] at hc hr
+      have hne : I ≠ out.identity := hhead (I, idj) (List.mem_of_getElem? hr)
+      obtain ⟨h1, h2⟩ := newStruct_other hns hI hne hfind
+      exact ih hrest hI1 hc hr h1 (h2 ▸ hv)
+
+theorem deleteAll_keeps_cur {s s' : State} {cur : Nat} {l : List (Identity × Id)}
+    (h : deleteAll s cur l = .ok s') {k : Nat} {v : Slot} (hv : s.slots[k]? = some v)
+    (hd : v.updatedAt = some cur) : s'.slots[k]? = some v := by
+  induction l generalizing s with
+  | nil => simp only [deleteAll, Except.ok.injEq] at h; exact h ▸ hv
+  | cons x rest ih =>
+    obtain ⟨s1, h1, h2⟩ := deleteAll_cons h
+    obtain ⟨v1, r, hv1, hr, hne', ht, _⟩ := deleteEntity_spec h1
+    have hne : k ≠ x.2.idx := by
+      intro hc
+      rw [hc, hv1] at hv
+      cases hv
+      rw [hd] at hr; cases hr
+      exact hne' rfl
+    apply ih h2
+    rw [ht.1 k hne]; exact hv
+
+/-- the execution-level statement behind `c06_same_id` and `c06_memos_kept` -/
+theorem runExecution_same_id {hash : Nat → Nat} {cur : Nat} {prev : List (Identity × Id)}
+    {cs : List Creation} {s : State} {out : ExecOut}
+    (h : runExecution hash cur prev cs s = .ok out)
+    (hF : FreeOK s) (hN : FreeNodup s) (hown : ∀ x, x ∈ prev → Owns s x.2)
+    (hnd : (pairIdxs prev).Nodup)
+    {j : Nat} {c : Creation} {I : Identity} {idj id : Id} {v : Slot} {r : Nat}
+    (hc : cs[j]? = some c) (hr : out.created[j]? = some (I, idj))
+    (hfind : IdentityMap.find (Frame.seed prev).idmap I = some id)
+    (hv : s.slots[id.idx]? = some v) (hu : v.updatedAt = some r)
+    (hgen : r = cur ∨ id.gen < GEN_MAX) (hidv : v.fields.idv = c.fields.idv) :
+    idj = id ∧ (I, id) ∈ out.active ∧
+    out.state.slots[id.idx]?
+      = some (if r = cur then v else updatedValue v cur c.dur c.changedAt id c.fields) := by
+  obtain ⟨f1, s1, hrun, hdel, hact, _⟩ := runExecution_cases h
+  have hI := finv_seed hF hN hown hnd
+  obtain ⟨h1, h2, h3⟩ := runCreations_same_id hrun hI hc hr hfind hv hu hgen hidv
+  have hcur : (if r = cur then v else updatedValue v cur c.dur c.changedAt id c.fields).updatedAt
+      = some cur := by
+    by_cases hrc : r = cur
+    · simp only [hrc, if_true]; rw [hu, hrc]
+    · simp only [hrc, if_false]; rfl
+  have h4 := deleteAll_keeps_cur hdel h2 hcur
+  refine ⟨h1, ?_, h4⟩
+  -- the entry is active: otherwise it would be stale and `deleteEntity` would have panicked
+  obtain ⟨e, he, heI, heid⟩ := find_some_mem h3
+  rw [hact]
+  cases ha : e.active with
+  | true => exact mem_drain_active.mpr ⟨e, he, ha, by rw [← heI, ← heid]; rfl⟩
+  | false =>
+    exfalso
+    have hst : (I, id) ∈ (IdentityMap.drain f1.idmap).2 :=
+      mem_drain_stale.mpr ⟨e, he, ha, by rw [← heI, ← heid]; rfl⟩
+    obtain ⟨v', hv', hd', _⟩ := deleteAll_dead hdel hst
+    rw [h4] at hv'
+    cases hv'
+    rw [hcur] at hd'
+    cases hd'
+
+/-- the identity hash recorded for a handle is the hash of the identity value stored in its slot -/
+def HashAt (hash : Nat → Nat) (s : State) (x : Identity × Id) : Prop :=
+  ∃ v, s.slots[x.2.idx]? = some v ∧ hash v.fields.idv = x.1.hash
+
+instance (hash : Nat → Nat) (s : State) (x : Identity × Id) : Decidable (HashAt hash s x) :=
+  match h : s.slots[x.2.idx]? with
+  | some v =>
+    if h2 : hash v.fields.idv = x.1.hash then isTrue ⟨v, h, h2⟩
+    else isFalse (by rintro ⟨v', h1, h3⟩; rw [h] at h1; cases h1; exact h2 h3)
+  | none => isFalse (by rintro ⟨v', h1, _⟩; rw [h] at h1; cases h1)
+
+theorem find_seed_mem {prev : List (Identity × Id)} {I : Identity} {id : Id}
+    (h : IdentityMap.find (Frame.seed prev).idmap I = some id) : (I, id) ∈ prev := by
+  obtain ⟨e, he, heI, heid⟩ := find_some_mem h
+  rcases mem_seed he with h1 | ⟨h1, _⟩
+  · simp at h1
+  · rw [← heI, ← heid]; exact h1
+
+/-- what `update` leaves in a slot whose identity value did not change -/
+theorem updatedValue_same {v : Slot} {cur dur ca : Nat} {id : Id} {fields : Fields}
+    (hidv : v.fields.idv = fields.idv) :
+    (updatedValue v cur dur ca id fields).memos = v.memos ∧
+    (updatedValue v cur dur ca id fields).gen = v.gen ∧
+    (updatedValue v cur dur ca id fields).updatedAt = some cur ∧
+    (updatedValue v cur dur ca id fields).fields = fields ∧
+    (updatedValue v cur dur ca id fields).dur = dur ∧
+    (dur < v.dur → (updatedValue v cur dur ca id fields).revs = newRevisions ca fields) ∧
+    (¬ dur < v.dur → ∀ (i rv o n : Nat), v.revs[i]? = some rv → v.fields.tracked[i]? = some o →
+        fields.tracked[i]? = some n →
+        (updatedValue v cur dur ca id fields).revs[i]? = some (if o = n then rv else ca)) := by
+  have hch : (updateFields ca v.revs v.fields fields).identityChanged = false := by
+    rw [updateFields_changed]; simp [hidv]
+  refine ⟨?_, ?_, rfl, ?_, rfl, ?_, ?_⟩
+  · rw [updatedValue_memos_eq, hch]; simp
+  · rw [updatedValue_gen_eq, hch]; simp
+  · exact updateFields_fields _ _ _ _
+  · intro hd
+    simp [updatedValue, hd]
+  · intro hd i rv o n h1 h2 h3
+    simp only [updatedValue, hd, if_false]
+    exact updateTracked_revs ca v.revs v.fields.tracked fields.tracked i rv o n h1 h2 h3
+
+/-! ### C07 (tracked-struct part): lemmas `c07s_*`, re-exported by `Props/C07.lean` -/
+
+/-- `c07s_clear_on_bump` (frame level): whenever `newStruct` changes the generation recorded in a
+    slot — free-list reuse in `allocate`, or the identity-field-changed branch of `update` — the
+    slot is the one of the returned id, carries the returned id's generation, its memo table is
+    empty and its fields are exactly the new fields.  Under the frame invariant the new generation
+    is the old one plus one. -/
+theorem c07s_clear_on_bump {hash : Nat → Nat} {cur dur ca g : Nat} {fields : Fields} {f : Frame}
+    {s : State} {out : NewStruct} (h : newStruct hash cur dur ca g fields f s = .ok out)
+    {k : Nat} {v v' : Slot} (hv : s.slots[k]? = some v) (hv' : out.state.slots[k]? = some v')
+    (hgen : v'.gen ≠ v.gen) :
+    v'.memos = [] ∧ v'.fields = fields ∧ k = out.id.idx ∧ v'.gen = out.id.gen ∧
+    v'.updatedAt = some cur ∧ (FInv f s → v'.gen = v.gen + 1) := by
+  have hk : k < s.slots.length := by
+    rcases Nat.lt_or_ge k s.slots.length with h1 | h1
+    · exact h1
+    · rw [List.getElem?_eq_none h1] at hv; cases hv
+  have halloc : ∀ s2 id2, allocate s cur dur ca g fields = .ok (s2, id2) → out.state = s2 →
+      out.id = id2 →
+      v'.memos = [] ∧ v'.fields = fields ∧ k = out.id.idx ∧ v'.gen = out.id.gen ∧
+      v'.updatedAt = some cur ∧ (FInv f s → v'.gen = v.gen + 1) := by
+    intro s2 id2 ha hs hid
+    obtain ⟨_, hcase⟩ := allocate_cases ha
+    rw [hs] at hv'
+    rcases hcase with ⟨id0, v0, hmem, _, hid2, _, hv0, hslots⟩ | ⟨_, _, hslots⟩
+    · rw [hslots] at hv'
+      by_cases hki : id2.idx = k
+      · rw [hki] at hv0
+        rw [← hki, getElem?_set_self' (hki ▸ hv0)] at hv'
+        cases hv'
+        refine ⟨rfl, rfl, by rw [hid, hki], by rw [hid]; rfl, rfl, ?_⟩
+        intro hI
+        obtain ⟨vd, hvd, _, hgd, _⟩ := hI.freeOK _ hmem
+        have : id0.idx = k := by rw [← hki, hid2]
+        rw [show ((g, id0) : Nat × Id).2.idx = k from this, hv] at hvd
+        cases hvd
+        show id2.gen = v.gen + 1
+        rw [hid2, hgd]
+      · rw [List.getElem?_set_ne hki, hv] at hv'
+        cases hv'; exact absurd rfl hgen
+    · rw [hslots, List.getElem?_append_left hk, hv] at hv'
+      cases hv'; exact absurd rfl hgen
+  obtain ⟨_, _, hcase⟩ := newStruct_cases h
+  rcases hcase with ⟨id, v0, _, _, _, _, hs, _⟩ | ⟨id, v0, last, s2, id2, _, _, _, _, _, ha, _, hs, hid⟩ |
+    ⟨id, v0, last, hfind, hv0, _, _, _, hs, hc⟩ | ⟨_, s2, id2, ha, _, hs, hid⟩
+  · rw [hs, hv] at hv'; cases hv'; exact absurd rfl hgen
+  · exact halloc s2 id2 ha hs hid
+  · rw [hs] at hv'
+    by_cases hki : id.idx = k
+    · rw [← hki, getElem?_set_self' hv0] at hv'
+      cases hv'
+      rw [← hki, hv0] at hv
+      cases hv
+      rw [updatedValue_gen_eq] at hgen
+      rcases hc with ⟨hc1, _, _⟩ | ⟨hc1, hid, _⟩
+      · rw [hc1] at hgen; exact absurd rfl hgen
+      · refine ⟨by rw [updatedValue_memos_eq, hc1]; rfl, updateFields_fields _ _ _ _, by rw [hid],
+          by rw [updatedValue_gen_eq, hc1, hid]; rfl, rfl, ?_⟩
+        intro hI
+        obtain ⟨e, he, _, heid⟩ := find_some_mem hfind
+        obtain ⟨ve, hve, _, hge⟩ := hI.owns e he
+        rw [heid, hv0] at hve
+        cases hve
+        rw [updatedValue_gen_eq, hc1, ← hge]; rfl
+    · rw [List.getElem?_set_ne hki, hv] at hv'
+      cases hv'; exact absurd rfl hgen
+  · exact halloc s2 id2 ha hs hid
+
+theorem deleteAll_gen {s s' : State} {cur : Nat} {l : List (Identity × Id)}
+    (h : deleteAll s cur l = .ok s') {k : Nat} {v : Slot} (hv : s.slots[k]? = some v) :
+    ∃ v', s'.slots[k]? = some v' ∧ v'.gen = v.gen ∧ v'.fields = v.fields := by
+  induction l generalizing s v with
+  | nil => simp only [deleteAll, Except.ok.injEq] at h; exact ⟨v, h ▸ hv, rfl, rfl⟩
+  | cons x rest ih =>
+    obtain ⟨s1, h1, h2⟩ := deleteAll_cons h
+    obtain ⟨v1, r, hv1, _, _, ht, _⟩ := deleteEntity_spec h1
+    by_cases hk : k = x.2.idx
+    · rw [hk, hv1] at hv
+      cases hv
+      obtain ⟨v', hv', hg, hf⟩ := ih h2 (hk ▸ ht.2)
+      exact ⟨v', hv', hg, hf⟩
+    · exact ih h2 (by rw [ht.1 k hk]; exact hv)
+
+/-- `c07s_clear_on_bump` (world level): the only op that changes the generation recorded in an
+    existing slot is `new`; it then leaves the slot with an empty memo table, the new fields,
+    stamped with the current revision, and — in a state satisfying the invariant — with the old
+    generation plus one.  All other ops keep every slot's generation. -/
+theorem c07s_clear_on_bump_step {hash : Nat → Nat} {w w' : World} {op : Op}
+    (h : step hash w op = .ok w') {k : Nat} {v v' : Slot} (hv : w.st.slots[k]? = some v)
+    (hv' : w'.st.slots[k]? = some v') (hgen : v'.gen ≠ v.gen) :
+    ∃ q cur dur ca g fields, op = .new q cur dur ca g fields ∧ v'.memos = [] ∧
+      v'.fields = fields ∧ v'.updatedAt = some cur ∧ (WInv w → v'.gen = v.gen + 1) := by
+  cases op with
+  | spawn =>
+    simp only [step, Except.ok.injEq] at h
+    subst h
+    rw [hv] at hv'; cases hv'; exact absurd rfl hgen
+  | «begin» q =>
+    simp only [step] at h
+    split at h
+    · simp only [Except.ok.injEq] at h
+      subst h
+      rw [hv] at hv'; cases hv'; exact absurd rfl hgen
+    · cases h
+  | new q cur dur ca g fields =>
+    simp only [step] at h
+    split at h
+    · rename_i f hq
+      split at h
+      · cases h
+      · rename_i out hns
+        simp only [Except.ok.injEq] at h
+        subst h
+        obtain ⟨h1, h2, _, _, h5, h6⟩ := c07s_clear_on_bump hns hv hv' hgen
+        refine ⟨q, cur, dur, ca, g, fields, rfl, h1, h2, h5, ?_⟩
+        intro hI
+        apply h6
+        exact ⟨hI.freeOK, hI.freeNodup,
+          fun e he => ctx_owns hI hq e.id (by simp only [ctxIds, List.mem_map]; exact ⟨e, he, rfl⟩),
+          ctx_nodup hI hq⟩
+    · cases h
+  | finish q cur =>
+    simp only [step] at h
+    split at h
+    · split at h
+      · cases h
+      · rename_i s2 hdel
+        simp only [Except.ok.injEq] at h
+        subst h
+        obtain ⟨v2, hv2, hg, _⟩ := deleteAll_gen hdel hv
+        rw [hv2] at hv'; cases hv'; exact absurd hg hgen
+    · cases h
+  | discard q cur =>
+    simp only [step] at h
+    split at h
+    · split at h
+      · cases h
+      · rename_i s2 hdel
+        simp only [Except.ok.injEq] at h
+        subst h
+        obtain ⟨v2, hv2, hg, _⟩ := deleteAll_gen hdel hv
+        rw [hv2] at hv'; cases hv'; exact absurd hg hgen
+    · cases h
+  | read cur idx =>
+    simp only [step] at h
+    split at h
+    · cases h
+    · rename_i s2 hrd
+      simp only [Except.ok.injEq] at h
+      subst h
+      obtain ⟨v0, r, hv0, _, hs⟩ := readField_cases hrd
+      subst hs
+      by_cases hk : idx = k
+      · subst hk
+        rw [hv] at hv0; cases hv0
+        simp only [getElem?_set_self' hv, Option.some.injEq] at hv'
+        subst hv'
+        exact absurd rfl hgen
+      · simp only [List.getElem?_set_ne hk] at hv'
+        rw [hv] at hv'; cases hv'; exact absurd rfl hgen
+  | addMemo idx payload =>
+    simp only [step] at h
+    split at h
+    · cases h
+    · rename_i s2 hrd
+      simp only [Except.ok.injEq] at h
+      subst h
+      obtain ⟨v0, r, hv0, _, hs⟩ := addMemo_cases hrd
+      subst hs
+      by_cases hk : idx = k
+      · subst hk
+        rw [hv] at hv0; cases hv0
+        simp only [getElem?_set_self' hv, Option.some.injEq] at hv'
+        subst hv'
+        exact absurd rfl hgen
+      · simp only [List.getElem?_set_ne hk] at hv'
+        rw [hv] at hv'; cases hv'; exact absurd rfl hgen
+
+/-- `c07s_memo_gen`: in every state reachable from the empty world, every memo stored in a slot
+    carries (was inserted under) the slot's current generation. -/
+theorem c07s_memo_gen {hash : Nat → Nat} {ops : List Op} {w : World}
+    (h : runOps hash World.empty ops = .ok w) :
+    ∀ (k : Nat) (v : Slot), w.st.slots[k]? = some v → ∀ m : Memo, m ∈ v.memos → m.gen = v.gen :=
+  (runOps_inv winv_empty h).memoGen
+
+/-- … and the generation recorded in a live slot is the generation of every handle a creator
+    holds for it (so "the slot's current generation" is the generation of the valid handles). -/
+theorem c07s_handle_gen {hash : Nat → Nat} {ops : List Op} {w : World}
+    (h : runOps hash World.empty ops = .ok w) {c : Ctx} (hc : c ∈ w.ctxs) {id : Id}
+    (hid : id ∈ ctxIds c) :
+    ∃ v, w.st.slots[id.idx]? = some v ∧ v.updatedAt ≠ none ∧ v.gen = id.gen :=
+  (runOps_inv winv_empty h).owns c hc id hid
 
 end SalsaVerif.Proofs.Structs
